@@ -22,9 +22,21 @@
                        r' = Err, or both Panic, or both OK with R a a'.
    [backs zh t n]      := exists v, has_type v t = true /\ repr zh t n v : the tree n is a
                        well-formed backing of some value of type t.
+   [got_sim]           results of a typed Get: equal plain values; sub-view backings up to [summ].
    [step_sim], [iter_sim]  a drained iterator of the partial tree against the one of the full
                        tree: step by step equal (sub-view nodes up to [summ]) until the
-                       partial one reports [IErr] and stops. *)
+                       partial one reports [IErr] and stops.
+   [msim], [hsim], [ssim]  mutation results, handles, machine states: same types and hooks,
+                       backings related by [summ].
+   [mutating o], [op_expands o]  o is Set/Append/Pop/Change; o is Append/Pop (Setter with expand).
+   [typed_state], [hooks_dec]    every handle's backing is well typed; hooks point to older handles.
+   [osim], [hist_sim]  outcome of one step / of a history of the partial machine against the
+                       full machine: an error, or the same result and related states.
+
+   Contents: 1 summaries; 2 navigation and writes; 3 reads (lengths, getters, byte lengths,
+   serialisation, iterators); 4 mutations of one handle, the one-handle machine; 5 hypotheses
+   from constructors, no panic (C04); 6 examples and the necessity of the collision hypothesis;
+   7 facade; 8 read_val; 9 the machine on arbitrary states (sub-views, hooks, histories). *)
 From Coq Require Import List NArith ZArith Bool Lia PeanoNat ZifyN ZifyNat ZifyBool.
 From Ztyp Require Import Base Bitlen Tree Types Spec View Iter Mut Repr
      BitlenProofs TreeProofs MerkleProofs ReprProofs IterProofs.
@@ -415,6 +427,9 @@ Notation backs := (backs zh).
 
 Definition leafy (m : node) : Prop := exists c, m = Leaf c.
 
+Lemma pair_inj a b a' b' : Pair a b = Pair a' b' -> a = a' /\ b = b'.
+Proof. intros E. injection E as -> ->. auto. Qed.
+
 Lemma leafy_leaf c : leafy (Leaf c).
 Proof. exists c. reflexivity. Qed.
 
@@ -506,7 +521,7 @@ Proof.
     + apply bottom_leaf in Hb. subst m. apply leafy_leaf.
     + apply ztree_S_pair in Hz. destruct Hz as [Ha Hb'].
       replace (N.of_nat (S d)) with (N.of_nat d + 1) in Hb by lia. rewrite bottom_pair in Hb.
-      destruct (N.testbit q (N.of_nat d)); eapply IH; eauto.
+      destruct (N.testbit q (N.of_nat d)); [eapply (IH b)|eapply (IH a)]; eauto.
 Qed.
 
 (* a series all of whose components are leaves has only leaves at the bottom level (the
@@ -517,8 +532,8 @@ Lemma series_all_leafy : forall d (ps : list (node -> Prop)) n q m,
 Proof.
   induction d as [|d IH]; intros ps n q m HF Hs Hb.
   - destruct ps as [|p ps].
-    + apply series_nil in Hs. eapply ztree_bottom_leafy; eauto.
-    + apply series_0 in Hs. destruct Hs as [_ Hp]. rewrite bottom_0 in Hb. injection Hb as <-.
+    + apply (proj1 (series_nil zh _ _)) in Hs. eapply ztree_bottom_leafy; eauto.
+    + apply (proj1 (series_0 zh _ _ _)) in Hs. destruct Hs as [_ Hp]. rewrite bottom_0 in Hb. injection Hb as <-.
       inversion HF; subst; auto.
   - destruct n as [c|a b].
     + apply bottom_leaf in Hb. subst m. apply leafy_leaf.
@@ -526,8 +541,8 @@ Proof.
       replace (N.of_nat (S d)) with (N.of_nat d + 1) in Hb by lia. rewrite bottom_pair in Hb.
       destruct (lenN ps <=? 2 ^ N.of_nat d); destruct Hs as [Ha Hb'].
       * destruct (N.testbit q (N.of_nat d)).
-        -- eapply ztree_bottom_leafy; eauto.
-        -- eapply IH; eauto.
+        -- eapply (ztree_bottom_leafy d b); eauto.
+        -- eapply (IH ps a); eauto.
       * destruct (N.testbit q (N.of_nat d)).
         -- eapply (IH _ b); [apply Forall_skipn'; exact HF|eauto|eauto].
         -- eapply (IH _ a); [apply Forall_firstn'; exact HF|eauto|eauto].
@@ -624,9 +639,9 @@ Lemma backs_list_elems e k c L : is_basic_elem e = false -> backs (TList e k) (P
   forall i m, i < L0 -> bottom c (contents_depth (TList e k)) i = OK m -> backs e m.
 Proof.
   intros Hb (v & Hty & Hr). dval v Hty. rewrite repr_list, Hb in Hr.
-  destruct Hr as (c0 & E & Hr). injection E as <- E.
+  destruct Hr as (c0 & E & Hr). apply pair_inj in E. destruct E as [<- E].
   cbn [has_type] in Hty. apply andb_true_iff in Hty. destruct Hty as [_ Hty].
-  exists (lenN vs). split; [unfold len_leaf; now rewrite E|].
+  exists (lenN vs). split; [exact E|].
   intros i m Hi Hbot. rewrite <- cdepth_N in Hbot. eapply elems_bottom_backs; eauto.
 Qed.
 
@@ -669,7 +684,9 @@ Lemma backs_union none opts n : wf_ty (TUnion none opts) = true -> backs (TUnion
      forall o, nth_error opts (nat_of (if none then N_of_byte (hd b0 s) - 1 else N_of_byte (hd b0 s))) = Some o ->
                backs o c).
 Proof.
-  intros Hwf (v & Hty & Hr). dval v Hty. rewrite repr_union in Hr.
+  intros Hwf (v & Hty & Hr).
+  destruct v as [x|x|x|x|x|x|sel ov]; try (cbn [has_type] in Hty; discriminate Hty).
+  rewrite repr_union in Hr.
   destruct Hr as (c & -> & Hr). exists c, (pad32 [byte_of_N sel]). split; [reflexivity|].
   cbn [wf_ty] in Hwf. apply andb_true_iff in Hwf. destruct Hwf as [Hwf _].
   apply andb_true_iff in Hwf. destruct Hwf as [_ Hcnt]. apply N.leb_le in Hcnt.
@@ -704,4 +721,1871 @@ Proof.
   destruct (summ_list_header _ _ _ Hs) as [[x ->]|(c' & -> & Hc)]; [now left|now right].
 Qed.
 
+
+Lemma list_length_len_leaf_le k c L ll : list_length k (Pair c (len_leaf L)) = OK ll -> ll <= L.
+Proof.
+  unfold list_length, len_leaf.
+  change (firstn 8 (pad32 (le_bytes 8 L))) with (le_bytes 8 L). rewrite le_val_le_bytes.
+  destruct (k <? _); [discriminate|]. intros [= <-]. apply N.mod_le. apply pow256_nz.
+Qed.
+
+Lemma summ_check_index t n n' i : is_list_ty t = true -> backs t n -> summ n n' ->
+  eos (check_index t n' i) (check_index t n i).
+Proof.
+  intros Ht Hb Hs. unfold check_index.
+  eapply (eos_bind eq); [apply eos_eosR; eapply summ_list_length; eauto|].
+  intros ll ? <-. apply eos_refl.
+Qed.
+
+Lemma view_depth_nonlist t : is_list_ty t = false -> view_depth t = contents_depth t.
+Proof. intros Ht. unfold view_depth. rewrite Ht. lia. Qed.
+
+Lemma view_depth_list t : is_list_ty t = true -> view_depth t = contents_depth t + 1.
+Proof. intros Ht. unfold view_depth. now rewrite Ht. Qed.
+
+(* lists with packed contents: whatever GetNode reaches is a leaf *)
+Lemma list_get_node_leafy t c L q a : is_list_ty t = true ->
+  (forall q m, bottom c (contents_depth t) q = OK m -> leafy m) ->
+  get_node t (Pair c (len_leaf L)) q = OK a -> leafy a.
+Proof.
+  intros Ht Hc Hg. apply get_node_ok in Hg. destruct Hg as (_ & _ & Hb).
+  rewrite (view_depth_list t Ht), bottom_pair in Hb.
+  destruct (N.testbit q (contents_depth t)).
+  - unfold len_leaf in Hb. apply bottom_leaf in Hb. subst a. apply leafy_leaf.
+  - eapply Hc; eauto.
+Qed.
+
+(* ---- 3.4 typed getters ---- *)
+
+Definition got_sim (g g' : got) : Prop :=
+  match g, g' with
+  | GVal v, GVal v' => v = v'
+  | GNode e m, GNode e' m' => e = e' /\ summ m m'
+  | _, _ => False
+  end.
+
+Lemma got_sim_refl g : got_sim g g.
+Proof. destruct g; cbn; auto. split; [reflexivity|constructor]. Qed.
+
+(* the packed tail of view_get: a leaf is read *)
+Lemma packed_tail_sim (K : chunk -> res got) r' r :
+  eosR (fun a a' => summ a a' /\ leafy a) r' r ->
+  eosR got_sim (do b <- r'; do c <- leaf_chunk b; K c) (do b <- r; do c <- leaf_chunk b; K c).
+Proof.
+  intros Hr. eapply eosR_bind; [exact Hr|]. intros b b' [Hs Hl].
+  rewrite (summ_leafy _ _ Hs Hl). apply eosR_same. apply got_sim_refl.
+Qed.
+
+Lemma node_tail_sim e r' r :
+  eosR summ r' r -> eosR got_sim (do c <- r'; OK (GNode e c)) (do c <- r; OK (GNode e c)).
+Proof.
+  intros Hr. eapply eosR_bind; [exact Hr|]. intros c c' Hc. apply eosR_ok. cbn. auto.
+Qed.
+
+Theorem summ_view_get t n n' i : backs t n -> summ n n' ->
+  eosR got_sim (view_get t n' i) (view_get t n i).
+Proof.
+  intros Hb Hs. destruct t as [w| |k| |k|k|e k|e k|fs|none opts]; try apply eosR_err.
+  - (* Bitvector *)
+    cbn [view_get]. destruct (k <=? i); [apply eosR_err|].
+    apply packed_tail_sim. apply eosR_strengthen; [now apply summ_get_node|].
+    intros a Ha. apply get_node_ok in Ha. destruct Ha as (_ & _ & Ha).
+    rewrite view_depth_nonlist in Ha by reflexivity. eapply backs_bitvector; eauto.
+  - (* Bitlist *)
+    cbn [view_get].
+    eapply (eosR_bind eq); [apply eos_eosR; apply summ_check_index; auto|]. intros _ _ _.
+    apply packed_tail_sim. apply eosR_strengthen; [now apply summ_get_node|].
+    intros a Ha. destruct (backs_list (TBitlist k) n eq_refl Hb) as (c & L & ->).
+    eapply (list_get_node_leafy (TBitlist k)); [reflexivity| |exact Ha].
+    intros q m. eapply backs_bitlist; eauto.
+  - (* Vector *)
+    cbn [view_get]. destruct (k <=? i); [apply eosR_err|].
+    destruct (is_basic_elem e) eqn:Hbe.
+    + cbv zeta. apply packed_tail_sim. apply eosR_strengthen; [now apply summ_get_node|].
+      intros a Ha. apply get_node_ok in Ha. destruct Ha as (_ & _ & Ha).
+      rewrite view_depth_nonlist in Ha by reflexivity. eapply backs_vector_basic; eauto.
+    + apply node_tail_sim. now apply summ_get_node.
+  - (* List *)
+    cbn [view_get].
+    eapply (eosR_bind eq); [apply eos_eosR; apply summ_check_index; auto|]. intros _ _ _.
+    destruct (is_basic_elem e) eqn:Hbe.
+    + cbv zeta. apply packed_tail_sim. apply eosR_strengthen; [now apply summ_get_node|].
+      intros a Ha. destruct (backs_list (TList e k) n eq_refl Hb) as (c & L & ->).
+      eapply (list_get_node_leafy (TList e k)); [reflexivity| |exact Ha].
+      intros q m. eapply backs_list_basic; eauto.
+    + apply node_tail_sim. now apply summ_get_node.
+  - (* Container *)
+    cbn [view_get]. destruct (nth_error fs (nat_of i)) as [f|]; [|apply eosR_err].
+    apply node_tail_sim. now apply summ_get_node.
+Qed.
+
+
+(* ---- 3.5 ValueByteLength ---- *)
+
+Local Ltac same_step := eapply (eos_bind eq); [apply eosR_same; reflexivity|]; intros ? ? <-.
+
+Lemma node_iter_all_nth n len depth ns i m :
+  node_iter_all n len depth = OK ns -> nth_error ns i = Some m ->
+  bottom n depth (N.of_nat i) = OK m /\ N.of_nat i < len.
+Proof.
+  intros Ha Hn. destruct (N.lt_ge_cases depth 64) as [Hd|Hd].
+  - eapply node_iter_sound; eauto.
+  - exfalso. unfold node_iter_all in Ha. destruct (node_iter_ok depth len) eqn:Hok; [|discriminate].
+    apply (node_iter_ok_high depth len Hd) in Hok. subst len.
+    change (nat_of 0) with 0%nat in Ha. cbn [node_iter_take] in Ha. injection Ha as <-.
+    destruct i; discriminate.
+Qed.
+
+(* readable views of the nested fixpoints of byte_len / ser_node *)
+Definition blen_go (t : ty) (n : node) : list ty -> N -> N -> res N :=
+  fix go (fs : list ty) (i acc : N) : res N :=
+  match fs with
+  | [] => OK acc
+  | f :: fs' =>
+    if ti_fixed (info f) then go fs' (i + 1) (add64 acc (ti_size (info f)))
+    else
+      do g <- to_gindex64 i (view_depth t);
+      do c <- getter n g;
+      do l <- byte_len f c;
+      go fs' (i + 1) (add64 acc (add64 l 4))
+  end.
+
+Lemma blen_go_nil t n i acc : blen_go t n [] i acc = OK acc.
+Proof. reflexivity. Qed.
+
+Lemma blen_go_cons t n f fs' i acc :
+  blen_go t n (f :: fs') i acc =
+  if ti_fixed (info f) then blen_go t n fs' (i + 1) (add64 acc (ti_size (info f)))
+  else
+    do g <- to_gindex64 i (view_depth t);
+    do c <- getter n g;
+    do l <- byte_len f c;
+    blen_go t n fs' (i + 1) (add64 acc (add64 l 4)).
+Proof. reflexivity. Qed.
+
+Lemma byte_len_cont fs n :
+  byte_len (TContainer fs) n =
+  if ti_fixed (info (TContainer fs)) then OK (ti_size (info (TContainer fs)))
+  else blen_go (TContainer fs) n fs 0 0.
+Proof. reflexivity. Qed.
+
+Lemma byte_len_union none opts c s :
+  byte_len (TUnion none opts) (Pair c (Leaf s)) =
+  if negb (forallb (fun b => N_of_byte b =? 0) (tl s)) then Err else
+  let sel := N_of_byte (hd b0 s) in
+  if wrap8 (union_count none opts) <=? sel then Err else
+  if none && (sel =? 0) then OK 1 else
+  rpick Panic (fun o => do l <- byte_len o c; OK (add64 l 1)) opts
+        (nat_of (if none then sel - 1 else sel)).
+Proof. reflexivity. Qed.
+
+Fixpoint ser_go (fs : list ty) (ns : list node) (prev_off prev_size : N) (fixed dyn : list byte)
+  : res (list byte) :=
+  match fs, ns with
+  | f :: fs', x :: ns' =>
+    if ti_fixed (info f) then
+      do bs <- ser_node f x; ser_go fs' ns' prev_off prev_size (fixed ++ bs) dyn
+    else
+      do l <- byte_len f x;
+      do r <- write_offset prev_off prev_size; let '(off, obs) := r in
+      do bs <- ser_node f x;
+      ser_go fs' ns' off l (fixed ++ obs) (dyn ++ bs)
+  | _, _ => OK (fixed ++ dyn)
+  end.
+
+Lemma ser_node_cont fs n :
+  ser_node (TContainer fs) n =
+  do ns <- node_iter_all n (N.of_nat (length fs)) (view_depth (TContainer fs));
+  ser_go fs ns (fixed_part_size fs) 0 [] [].
+Proof. reflexivity. Qed.
+
+Lemma ser_node_union none opts c s :
+  ser_node (TUnion none opts) (Pair c (Leaf s)) =
+  if negb (forallb (fun b => N_of_byte b =? 0) (tl s)) then Err else
+  let sel := N_of_byte (hd b0 s) in
+  if wrap8 (union_count none opts) <=? sel then Err else
+  if none && (sel =? 0) then OK [byte_of_N sel] else
+  rpick Panic (fun o => do bs <- ser_node o c; OK (byte_of_N sel :: bs)) opts
+        (nat_of (if none then sel - 1 else sel)).
+Proof. reflexivity. Qed.
+
+Definition len_stmt (t : ty) : Prop :=
+  forall n n', wf_ty t = true -> backs t n -> summ n n' ->
+  eos (byte_len t n') (byte_len t n).
+
+Definition ser_stmt (t : ty) : Prop :=
+  forall n n', wf_ty t = true -> backs t n -> summ n n' ->
+  eos (ser_node t n') (ser_node t n).
+
+Notation erel e := (fun m m' : node => summ m m' /\ backs e m).
+
+Lemma elems_len e ns ns' : len_stmt e -> wf_ty e = true -> Forall2 (erel e) ns ns' ->
+  eos (mapM (byte_len e) ns') (mapM (byte_len e) ns).
+Proof. intros IH Hwf HF. eapply mapM_eos; [exact HF|]. intros m m' [Hs Hb]. now apply IH. Qed.
+
+Lemma elems_ser e ns ns' : ser_stmt e -> wf_ty e = true -> Forall2 (erel e) ns ns' ->
+  eos (mapM (ser_node e) ns') (mapM (ser_node e) ns).
+Proof. intros IH Hwf HF. eapply mapM_eos; [exact HF|]. intros m m' [Hs Hb]. now apply IH. Qed.
+
+Lemma vector_fixed_basic e k : is_basic_elem e = true -> ti_fixed (info (TVector e k)) = true.
+Proof. intros Hb. cbn [info]. rewrite Hb. reflexivity. Qed.
+
+Lemma vector_elems_iter e k n n' : is_basic_elem e = false -> backs (TVector e k) n -> summ n n' ->
+  eosR (Forall2 (erel e)) (node_iter_all n' k (view_depth (TVector e k)))
+       (node_iter_all n k (view_depth (TVector e k))).
+Proof.
+  intros Hbe Hb Hs. apply (summ_node_iter (fun m => backs e m)); [exact Hs|].
+  intros i m Hi Hbot. rewrite view_depth_nonlist in Hbot by reflexivity.
+  eapply backs_vector_elems; eauto.
+Qed.
+
+Lemma list_elems_iter e k c c' L ll : is_basic_elem e = false ->
+  backs (TList e k) (Pair c (len_leaf L)) -> summ c c' ->
+  list_length k (Pair c (len_leaf L)) = OK ll ->
+  eosR (Forall2 (erel e)) (node_iter_all c' ll (contents_depth (TList e k)))
+       (node_iter_all c ll (contents_depth (TList e k))).
+Proof.
+  intros Hbe Hb Hs Hll. apply (summ_node_iter (fun m => backs e m)); [exact Hs|].
+  intros i m Hi Hbot. destruct (backs_list_elems e k c L Hbe Hb) as (L0 & EL & Hel).
+  rewrite EL in Hll. apply list_length_len_leaf_le in Hll. eapply Hel; eauto. lia.
+Qed.
+
+Lemma cont_field_getter fs n i g f c : backs (TContainer fs) n -> nth_error fs i = Some f ->
+  to_gindex64 (N.of_nat i) (view_depth (TContainer fs)) = OK g -> getter n g = OK c -> backs f c.
+Proof.
+  intros Hb Hf Hg Hc. rewrite to_gindex64_spec in Hg.
+  destruct (N.ltb_spec (view_depth (TContainer fs)) 64) as [Hd|Hd]; cbn [andb] in Hg; [|discriminate].
+  destruct (N.ltb_spec (N.of_nat i) (2 ^ view_depth (TContainer fs))) as [Hi|Hi]; [|discriminate].
+  injection Hg as <-. rewrite <- bottom_getter in Hc by assumption.
+  rewrite view_depth_nonlist in Hc by reflexivity. eapply backs_container; eauto.
+Qed.
+
+Lemma blen_go_summ fs n n' :
+  backs (TContainer fs) n -> summ n n' ->
+  forall fs' j acc, Forall len_stmt fs' -> forallb wf_ty fs' = true ->
+  (forall x f, nth_error fs' x = Some f -> nth_error fs (j + x) = Some f) ->
+  eos (blen_go (TContainer fs) n' fs' (N.of_nat j) acc) (blen_go (TContainer fs) n fs' (N.of_nat j) acc).
+Proof.
+  intros Hb Hs. induction fs' as [|f fs' IH]; intros j acc HF Hwf Hnth;
+    rewrite ?blen_go_nil, ?blen_go_cons.
+  - apply eos_refl.
+  - inversion HF as [|f0 l0 IHf HF']; subst. cbn [forallb] in Hwf.
+    apply andb_true_iff in Hwf. destruct Hwf as [Hwf Hwfs].
+    pose proof (Hnth 0%nat f eq_refl) as Hf. rewrite Nat.add_0_r in Hf.
+    replace (N.of_nat j + 1) with (N.of_nat (S j)) by lia.
+    assert (Hnth' : forall x f1, nth_error fs' x = Some f1 -> nth_error fs (S j + x) = Some f1).
+    { intros x f1 Hx. replace (S j + x)%nat with (j + S x)%nat by lia. now apply Hnth. }
+    destruct (ti_fixed (info f)); [now apply IH|].
+    destruct (to_gindex64 (N.of_nat j) (view_depth (TContainer fs))) as [g| |] eqn:Hg; cbn [bind];
+      [|apply eos_refl|apply eos_refl].
+    eapply (eos_bind (erel f)).
+    + apply eosR_strengthen; [now apply summ_getter|]. intros c Hc.
+      eapply cont_field_getter; eauto.
+    + intros c c' [Hsc Hbc]. eapply (eos_bind eq); [apply eos_eosR; now apply IHf|].
+      intros l ? <-. now apply IH.
+Qed.
+
+Theorem summ_byte_len : forall t, len_stmt t.
+Proof.
+  apply ty_nind; unfold len_stmt.
+  - intros w n n' _ _ _. apply eos_refl.
+  - intros n n' _ _ _. apply eos_refl.
+  - intros k n n' _ _ _. apply eos_refl.
+  - intros n n' _ _ _. apply eos_refl.
+  - intros k n n' _ _ _. apply eos_refl.
+  - (* Bitlist *)
+    intros k n n' _ Hb Hs. cbn [byte_len].
+    eapply (eos_bind eq); [apply eos_eosR; eapply (summ_list_length (TBitlist k)); eauto|].
+    intros ll ? <-. apply eos_refl.
+  - (* Vector *)
+    intros e k IHe n n' Hwf Hb Hs. cbn [byte_len].
+    destruct (ti_fixed (info (TVector e k))) eqn:Hfx; [apply eos_refl|].
+    destruct (is_basic_elem e) eqn:Hbe; [rewrite vector_fixed_basic in Hfx by exact Hbe; discriminate|].
+    cbn [wf_ty] in Hwf. apply andb_true_iff in Hwf. destruct Hwf as [_ Hwfe].
+    eapply eos_bind; [apply vector_elems_iter; eauto|]. intros ns ns' HF.
+    eapply (eos_bind eq); [apply eos_eosR; now apply elems_len|]. intros lens ? <-. apply eos_refl.
+  - (* List *)
+    intros e k IHe n n' Hwf Hb Hs. cbn [wf_ty] in Hwf.
+    destruct (backs_list (TList e k) n eq_refl Hb) as (c & L & ->).
+    destruct (summ_list_header _ _ _ Hs) as [[x ->]|(c' & -> & Hc)]; [now left|].
+    cbn [byte_len].
+    change (list_length k (Pair c' (len_leaf L))) with (list_length k (Pair c (len_leaf L))).
+    destruct (list_length k (Pair c (len_leaf L))) as [ll| |] eqn:Hll; cbn [bind];
+      [|apply eos_refl|apply eos_refl].
+    destruct (is_basic_elem e) eqn:Hbe; cbn [orb]; [apply eos_refl|].
+    destruct (ti_fixed (info e)); [apply eos_refl|]. cbn [node_left bind].
+    eapply eos_bind; [eapply list_elems_iter; eauto|]. intros ns ns' HF.
+    eapply (eos_bind eq); [apply eos_eosR; now apply elems_len|]. intros lens ? <-. apply eos_refl.
+  - (* Container *)
+    intros fs IHfs n n' Hwf Hb Hs. rewrite !byte_len_cont.
+    destruct (ti_fixed (info (TContainer fs))); [apply eos_refl|].
+    cbn [wf_ty] in Hwf. apply andb_true_iff in Hwf. destruct Hwf as [_ Hwfs].
+    apply (blen_go_summ fs n n' Hb Hs fs 0%nat 0 IHfs Hwfs). intros x f Hx. exact Hx.
+  - (* Union *)
+    intros none opts IHo n n' Hwf Hb Hs.
+    destruct (backs_union none opts n Hwf Hb) as (c & s & -> & Hopt).
+    destruct (summ_from_pair _ _ _ _ Hs) as [->|(c' & b' & -> & Hc & Hsel)]; [now left|].
+    apply summ_leaf_inv in Hsel. subst b'. rewrite !byte_len_union.
+    destruct (negb _); [apply eos_refl|]. cbv zeta.
+    destruct (wrap8 (union_count none opts) <=? N_of_byte (hd b0 s)); [apply eos_refl|].
+    destruct (none && (N_of_byte (hd b0 s) =? 0)) eqn:E0; [apply eos_refl|].
+    rewrite !rpick_nth_error.
+    destruct (nth_error opts _) as [o|] eqn:Ho; [|apply eos_refl].
+    cbn [wf_ty] in Hwf. apply andb_true_iff in Hwf. destruct Hwf as [_ Hwfo].
+    rewrite forallb_forall in Hwfo. rewrite Forall_forall in IHo.
+    pose proof (nth_error_In _ _ Ho) as Hin.
+    eapply (eos_bind eq); [apply eos_eosR; apply (IHo o Hin); auto|].
+    intros l ? <-. apply eos_refl.
+Qed.
+
+
+(* ---- 3.6 Serialize ---- *)
+
+Lemma ser_go_summ : forall fs' ns ns',
+  Forall2 summ ns ns' ->
+  (forall x f m, nth_error fs' x = Some f -> nth_error ns x = Some m -> backs f m) ->
+  Forall ser_stmt fs' -> forallb wf_ty fs' = true ->
+  forall po ps fx dy, eos (ser_go fs' ns' po ps fx dy) (ser_go fs' ns po ps fx dy).
+Proof.
+  induction fs' as [|f fs' IH]; intros ns ns' HF Hty HI Hwf po ps fx dy.
+  - destruct HF; cbn [ser_go]; apply eos_refl.
+  - destruct HF as [|m m' ns ns' Hm HF]; cbn [ser_go]; [apply eos_refl|].
+    inversion HI as [|f0 l0 IHf HI']; subst. cbn [forallb] in Hwf.
+    apply andb_true_iff in Hwf. destruct Hwf as [Hwf Hwfs].
+    pose proof (Hty 0%nat f m eq_refl eq_refl) as Hbm.
+    assert (Hty' : forall x f1 m1, nth_error fs' x = Some f1 -> nth_error ns x = Some m1 -> backs f1 m1).
+    { intros x f1 m1 Hx Hn. apply (Hty (S x) f1 m1); assumption. }
+    destruct (ti_fixed (info f)).
+    + eapply (eos_bind eq); [apply eos_eosR; now apply IHf|]. intros bs ? <-. now apply IH.
+    + eapply (eos_bind eq); [apply eos_eosR; now apply summ_byte_len|]. intros l ? <-.
+      destruct (write_offset po ps) as [[off obs]| |]; cbn [bind]; [|apply eos_refl|apply eos_refl].
+      eapply (eos_bind eq); [apply eos_eosR; now apply IHf|]. intros bs ? <-. now apply IH.
+Qed.
+
+(* the tail shared by complex vectors and lists *)
+Lemma ser_elems_tail e (fixed : bool) (off0 : N) ns ns' :
+  ser_stmt e -> wf_ty e = true -> Forall2 (erel e) ns ns' ->
+  eos (if fixed then do bss <- mapM (ser_node e) ns'; OK (concat bss)
+       else do lens <- mapM (byte_len e) ns'; do offs <- write_offsets lens off0 0;
+            do bss <- mapM (ser_node e) ns'; OK (offs ++ concat bss))
+      (if fixed then do bss <- mapM (ser_node e) ns; OK (concat bss)
+       else do lens <- mapM (byte_len e) ns; do offs <- write_offsets lens off0 0;
+            do bss <- mapM (ser_node e) ns; OK (offs ++ concat bss)).
+Proof.
+  intros IHe Hwf HF. destruct fixed.
+  - eapply (eos_bind eq); [apply eos_eosR; now apply elems_ser|]. intros bss ? <-. apply eos_refl.
+  - eapply (eos_bind eq); [apply eos_eosR; apply elems_len; auto; apply summ_byte_len|].
+    intros lens ? <-. same_step.
+    eapply (eos_bind eq); [apply eos_eosR; now apply elems_ser|]. intros bss ? <-. apply eos_refl.
+Qed.
+
+Theorem summ_ser_node : forall t, ser_stmt t.
+Proof.
+  apply ty_nind; unfold ser_stmt.
+  - intros w n n' _ Hb Hs. rewrite (summ_leafy _ _ Hs (backs_basic (TUint w) n I Hb)). apply eos_refl.
+  - intros n n' _ Hb Hs. rewrite (summ_leafy _ _ Hs (backs_basic TBool n I Hb)). apply eos_refl.
+  - intros k n n' _ Hb Hs. rewrite (summ_leafy _ _ Hs (backs_basic (TBytes k) n I Hb)). apply eos_refl.
+  - intros n n' _ Hb Hs. rewrite (summ_leafy _ _ Hs (backs_basic TRoot n I Hb)). apply eos_refl.
+  - (* Bitvector *)
+    intros k n n' _ Hb Hs. cbn [ser_node]. apply summ_subtree_into_bytes; [exact Hs|].
+    intros q m _ Hbot. rewrite view_depth_nonlist in Hbot by reflexivity. eapply backs_bitvector; eauto.
+  - (* Bitlist *)
+    intros k n n' _ Hb Hs.
+    destruct (backs_list (TBitlist k) n eq_refl Hb) as (c & L & ->).
+    destruct (summ_list_header _ _ _ Hs) as [[x ->]|(c' & -> & Hc)]; [now left|].
+    cbn [ser_node node_left bind].
+    change (list_length k (Pair c' (len_leaf L))) with (list_length k (Pair c (len_leaf L))).
+    destruct (list_length k (Pair c (len_leaf L))) as [ll| |]; cbn [bind];
+      [|apply eos_refl|apply eos_refl].
+    cbv zeta. eapply (eos_bind eq).
+    + apply eos_eosR. apply summ_subtree_into_bytes; [exact Hc|].
+      intros q m _ Hbot. eapply backs_bitlist; eauto.
+    + intros bs ? <-. apply eos_refl.
+  - (* Vector *)
+    intros e k IHe n n' Hwf Hb Hs. cbn [ser_node].
+    destruct (is_basic_elem e) eqn:Hbe.
+    + apply summ_subtree_into_bytes; [exact Hs|].
+      intros q m _ Hbot. rewrite view_depth_nonlist in Hbot by reflexivity.
+      eapply backs_vector_basic; eauto.
+    + cbn [wf_ty] in Hwf. apply andb_true_iff in Hwf. destruct Hwf as [_ Hwfe].
+      eapply eos_bind; [apply vector_elems_iter; eauto|]. intros ns ns' HF.
+      now apply ser_elems_tail.
+  - (* List *)
+    intros e k IHe n n' Hwf Hb Hs. cbn [wf_ty] in Hwf.
+    destruct (backs_list (TList e k) n eq_refl Hb) as (c & L & ->).
+    destruct (summ_list_header _ _ _ Hs) as [[x ->]|(c' & -> & Hc)].
+    { left. cbn [ser_node]. destruct (is_basic_elem e); reflexivity. }
+    cbn [ser_node].
+    change (list_length k (Pair c' (len_leaf L))) with (list_length k (Pair c (len_leaf L))).
+    destruct (is_basic_elem e) eqn:Hbe; cbn [node_left bind].
+    + destruct (list_length k (Pair c (len_leaf L))) as [ll| |]; cbn [bind];
+        [|apply eos_refl|apply eos_refl].
+      cbv zeta. apply summ_subtree_into_bytes; [exact Hc|].
+      intros q m _ Hbot. eapply backs_list_basic; eauto.
+    + destruct (list_length k (Pair c (len_leaf L))) as [ll| |] eqn:Hll; cbn [bind];
+        [|apply eos_refl|apply eos_refl].
+      eapply eos_bind; [eapply list_elems_iter; eauto|]. intros ns ns' HF.
+      now apply ser_elems_tail.
+  - (* Container *)
+    intros fs IHfs n n' Hwf Hb Hs. rewrite !ser_node_cont.
+    cbn [wf_ty] in Hwf. apply andb_true_iff in Hwf. destruct Hwf as [_ Hwfs].
+    set (d := view_depth (TContainer fs)). set (len := N.of_nat (length fs)).
+    eapply (eos_bind (fun ns ns' => Forall2 summ ns ns' /\
+              forall x m, nth_error ns x = Some m -> bottom n d (N.of_nat x) = OK m)).
+    + apply eosR_strengthen.
+      * eapply eosR_mono; [|apply (summ_node_iter (fun _ => True)); [exact Hs|auto]].
+        intros ns ns' HF. clear -HF. induction HF as [|a a' l l' [Ha _] HF IH]; constructor; auto.
+      * intros ns Hns x m Hx. eapply node_iter_all_nth; eauto.
+    + intros ns ns' [HF Hbot]. apply ser_go_summ; auto.
+      intros x f m Hf Hm. apply Hbot in Hm. unfold d in Hm.
+      rewrite view_depth_nonlist in Hm by reflexivity. eapply backs_container; eauto.
+  - (* Union *)
+    intros none opts IHo n n' Hwf Hb Hs.
+    destruct (backs_union none opts n Hwf Hb) as (c & s & -> & Hopt).
+    destruct (summ_from_pair _ _ _ _ Hs) as [->|(c' & b' & -> & Hc & Hsel)]; [now left|].
+    apply summ_leaf_inv in Hsel. subst b'. rewrite !ser_node_union.
+    destruct (negb _); [apply eos_refl|]. cbv zeta.
+    destruct (wrap8 (union_count none opts) <=? N_of_byte (hd b0 s)); [apply eos_refl|].
+    destruct (none && (N_of_byte (hd b0 s) =? 0)) eqn:E0; [apply eos_refl|].
+    rewrite !rpick_nth_error.
+    destruct (nth_error opts _) as [o|] eqn:Ho; [|apply eos_refl].
+    cbn [wf_ty] in Hwf. apply andb_true_iff in Hwf. destruct Hwf as [_ Hwfo].
+    rewrite forallb_forall in Hwfo. rewrite Forall_forall in IHo.
+    pose proof (nth_error_In _ _ Ho) as Hin.
+    eapply (eos_bind eq); [apply eos_eosR; apply (IHo o Hin); auto|].
+    intros l ? <-. apply eos_refl.
+Qed.
+
+
+(* ---- 3.7 the read-only iterators ---- *)
+
+(* one step of the full tree's iterator against the same step on the partial tree *)
+Inductive step_sim : istep -> istep -> Prop :=
+| ss_val v : step_sim (IVal v) (IVal v)
+| ss_node t m m' : summ m m' -> step_sim (INode t m) (INode t m')
+| ss_end : step_sim IEnd IEnd
+| ss_panic : step_sim IPanic IPanic.
+
+(* the drained iterators: equal step by step until the partial one reports an error *)
+Inductive iter_sim : list istep -> list istep -> Prop :=
+| is_err l : iter_sim l [IErr]
+| is_nil : iter_sim [] []
+| is_cons s s' l l' : step_sim s s' -> iter_sim l l' -> iter_sim (s :: l) (s' :: l').
+
+Lemma iter_sim_ends k : iter_sim (repeat IEnd k) (repeat IEnd k).
+Proof. induction k; cbn [repeat]; constructor; [constructor|assumption]. Qed.
+
+Lemma steps_of_sim {A} (f : A -> istep) (R : A -> A -> Prop) extra : forall rs rs',
+  Forall2 (fun r r' => eosR R r' r) rs rs' ->
+  (forall a a', R a a' -> step_sim (f a) (f a')) ->
+  iter_sim (steps_of f rs extra) (steps_of f rs' extra).
+Proof.
+  intros rs rs' HF Hf. induction HF as [|r r' rs rs' Hr HF IH]; cbn [steps_of].
+  - apply iter_sim_ends.
+  - destruct Hr as [->|[[-> ->]|(a & a' & -> & -> & Ha)]].
+    + apply is_err.
+    + constructor; constructor.
+    + constructor; auto.
+Qed.
+
+Lemma Forall2_map_in {A B C} (R : B -> C -> Prop) (f : A -> B) (g : A -> C) l :
+  (forall x, In x l -> R (f x) (g x)) -> Forall2 R (map f l) (map g l).
+Proof.
+  induction l as [|x l IH]; intros Hx; cbn [map]; constructor.
+  - apply Hx. now left.
+  - apply IH. intros y Hy. apply Hx. now right.
+Qed.
+
+Lemma summ_bottom_leafy c c' d q : summ c c' ->
+  (forall q m, bottom c d q = OK m -> leafy m) ->
+  eosR eq (bottom c' d q) (bottom c d q).
+Proof.
+  intros Hs Hl. eapply eosR_mono; [|apply eosR_strengthen; [apply (summ_bottom c c' d q Hs)|apply Hl]].
+  intros a a' [Ha Hla]. cbv beta in *. symmetry. now apply summ_leafy.
+Qed.
+
+Lemma bit_drain_sim c c' len d extra : summ c c' ->
+  (forall q m, bottom c d q = OK m -> leafy m) ->
+  iter_sim (if bit_iter_ok d len then bit_iter_drain (nat_of len + extra) c len d (bit_iter_init d)
+            else [IErr])
+           (if bit_iter_ok d len then bit_iter_drain (nat_of len + extra) c' len d (bit_iter_init d)
+            else [IErr]).
+Proof.
+  intros Hs Hl. destruct (bit_iter_ok d len) eqn:Hok; [|apply is_err].
+  destruct (N.lt_ge_cases d 64) as [Hd|Hd].
+  - destruct (bit_iter_ok_le d len Hd Hok) as [Hle H64]. unfold nat_of.
+    rewrite !bit_iter_drain_spec by lia.
+    apply (steps_of_sim _ eq); [|intros a ? <-; constructor].
+    apply Forall2_map_in. intros k _. unfold bit_elem.
+    eapply eosR_bind; [apply summ_bottom_leafy; eauto|]. intros b ? <-. apply eosR_same. reflexivity.
+  - apply (bit_iter_ok_high d len Hd) in Hok. subst len.
+    rewrite !bit_iter_drain_gen, !gen_drain_end by apply N.le_0_l. apply iter_sim_ends.
+Qed.
+
+Lemma basic_drain_sim e c c' len d extra : 1 <= per_node e -> summ c c' ->
+  (forall q m, bottom c d q = OK m -> leafy m) ->
+  iter_sim (if basic_iter_ok e d len
+            then basic_iter_drain (nat_of len + extra) e c len d (basic_iter_init e d) else [IErr])
+           (if basic_iter_ok e d len
+            then basic_iter_drain (nat_of len + extra) e c' len d (basic_iter_init e d) else [IErr]).
+Proof.
+  intros Hp Hs Hl. destruct (basic_iter_ok e d len) eqn:Hok; [|apply is_err].
+  destruct (N.lt_ge_cases d 64) as [Hd|Hd].
+  - destruct (basic_iter_ok_le e d len Hd Hok) as [Hle H64]. unfold nat_of.
+    rewrite !basic_iter_drain_spec by lia.
+    apply (steps_of_sim _ eq); [|intros a ? <-; constructor].
+    apply Forall2_map_in. intros k _. unfold packed_elem. cbv zeta.
+    eapply eosR_bind; [apply summ_bottom_leafy; eauto|]. intros b ? <-. apply eosR_same. reflexivity.
+  - apply (basic_iter_ok_high e d len Hd) in Hok. subst len.
+    rewrite !basic_iter_drain_gen, !gen_drain_end by apply N.le_0_l. apply iter_sim_ends.
+Qed.
+
+Lemma vfb_summ t m m' : backs t m -> summ m m' ->
+  view_from_backing_ok t m' = true -> view_from_backing_ok t m = true.
+Proof.
+  intros Hb Hs Hv.
+  destruct t as [w| |k| |k|k|e k|e k|fs|none opts]; try (destruct m; reflexivity).
+  - rewrite (summ_leafy _ _ Hs (backs_basic (TUint w) m I Hb)) in Hv; exact Hv.
+  - rewrite (summ_leafy _ _ Hs (backs_basic TBool m I Hb)) in Hv; exact Hv.
+  - rewrite (summ_leafy _ _ Hs (backs_basic (TBytes k) m I Hb)) in Hv; exact Hv.
+  - rewrite (summ_leafy _ _ Hs (backs_basic TRoot m I Hb)) in Hv; exact Hv.
+Qed.
+
+Lemma node_drain_sim tys c c' len d extra calls : summ c c' ->
+  (forall k m t, N.of_nat k < len -> bottom c d (N.of_nat k) = OK m -> tys k = Some t -> backs t m) ->
+  calls = nat_of len ->
+  iter_sim (if node_iter_ok d len
+            then node_iter_drain (calls + extra) tys c len d (ni_init d) O else [IErr])
+           (if node_iter_ok d len
+            then node_iter_drain (calls + extra) tys c' len d (ni_init d) O else [IErr]).
+Proof.
+  intros Hs Hty ->. destruct (node_iter_ok d len) eqn:Hok; [|apply is_err].
+  destruct (N.lt_ge_cases d 64) as [Hd|Hd].
+  - apply (node_iter_ok_spec d len Hd) in Hok. pose proof (pow2_le_64 d Hd). unfold nat_of.
+    rewrite !node_iter_drain_init by lia.
+    apply (steps_of_sim _ step_sim); [|auto].
+    apply Forall2_map_in. intros k Hk. apply seq_in_lt in Hk. unfold node_elem.
+    eapply eosR_bind.
+    + apply eosR_strengthen; [apply (summ_bottom c c' d (N.of_nat k) Hs)|].
+      intros m Hm. exact Hm.
+    + intros m m' [Hm Hbot]. cbv beta in Hbot. destruct (tys k) as [t|] eqn:Ht; [|apply eosR_err].
+      destruct (view_from_backing_ok t m') eqn:Hv; [|apply eosR_err].
+      rewrite (vfb_summ t m m' (Hty k m t Hk Hbot Ht) Hm Hv). apply eosR_ok. now constructor.
+  - apply (node_iter_ok_high d len Hd) in Hok. subst len.
+    rewrite !node_iter_drain_end by apply N.le_0_l. apply iter_sim_ends.
+Qed.
+
+Theorem summ_ro_iter t n n' extra : wf_ty t = true -> backs t n -> summ n n' ->
+  iter_sim (ro_iter t n extra) (ro_iter t n' extra).
+Proof.
+  intros Hwf Hb Hs. destruct t as [w| |k| |k|k|e k|e k|fs|none opts]; try apply is_err.
+  - (* Bitvector *)
+    cbn [ro_iter]. apply bit_drain_sim; [exact Hs|].
+    intros q m Hbot. rewrite view_depth_nonlist in Hbot by reflexivity. eapply backs_bitvector; eauto.
+  - (* Bitlist *)
+    destruct (backs_list (TBitlist k) n eq_refl Hb) as (c & L & ->).
+    destruct (summ_list_header _ _ _ Hs) as [[x ->]|(c' & -> & Hc)]; [apply is_err|].
+    cbn [ro_iter].
+    change (list_length k (Pair c' (len_leaf L))) with (list_length k (Pair c (len_leaf L))).
+    destruct (list_length k (Pair c (len_leaf L))) as [ll| |]; cbn [node_left];
+      [|apply is_err|constructor; constructor].
+    apply bit_drain_sim; [exact Hc|]. intros q m Hbot. eapply backs_bitlist; eauto.
+  - (* Vector *)
+    cbn [wf_ty] in Hwf. apply andb_true_iff in Hwf. destruct Hwf as [_ Hwfe].
+    cbn [ro_iter]. destruct (is_basic_elem e) eqn:Hbe.
+    + apply basic_drain_sim; [apply (packed_index e 0 Hbe Hwfe)|exact Hs|].
+      intros q m Hbot. rewrite view_depth_nonlist in Hbot by reflexivity.
+      eapply backs_vector_basic; eauto.
+    + apply node_drain_sim; [exact Hs| |reflexivity].
+      intros i m t Hi Hbot [= <-]. rewrite view_depth_nonlist in Hbot by reflexivity.
+      eapply backs_vector_elems; eauto.
+  - (* List *)
+    cbn [wf_ty] in Hwf.
+    destruct (backs_list (TList e k) n eq_refl Hb) as (c & L & ->).
+    destruct (summ_list_header _ _ _ Hs) as [[x ->]|(c' & -> & Hc)]; [apply is_err|].
+    cbn [ro_iter].
+    change (list_length k (Pair c' (len_leaf L))) with (list_length k (Pair c (len_leaf L))).
+    destruct (list_length k (Pair c (len_leaf L))) as [ll| |] eqn:Hll; cbn [node_left];
+      [|apply is_err|constructor; constructor].
+    cbv zeta. destruct (is_basic_elem e) eqn:Hbe.
+    + apply basic_drain_sim; [apply (packed_index e 0 Hbe Hwf)|exact Hc|].
+      intros q m Hbot. eapply backs_list_basic; eauto.
+    + apply node_drain_sim; [exact Hc| |reflexivity].
+      intros i m t Hi Hbot [= <-]. destruct (backs_list_elems e k c L Hbe Hb) as (L0 & EL & Hel).
+      rewrite EL in Hll. apply list_length_len_leaf_le in Hll. eapply Hel; eauto. lia.
+  - (* Container *)
+    cbn [ro_iter]. apply node_drain_sim; [exact Hs| |unfold nat_of; now rewrite Nat2N.id].
+    intros i m t Hi Hbot Ht. rewrite view_depth_nonlist in Hbot by reflexivity.
+    eapply backs_container; eauto.
+Qed.
+
+(* the index-based iterator / the getters one by one: every entry is an error or the entry of
+   the full tree (Go's index iterator does not stop at an element error) *)
+Theorem summ_get_all t n n' : backs t n -> summ n n' ->
+  get_all t n' = [IErr] \/
+  Forall2 (fun s s' => s' = IErr \/ step_sim s s') (get_all t n) (get_all t n').
+Proof.
+  intros Hb Hs. unfold get_all.
+  assert (Hlen : eos (series_len t n') (series_len t n)).
+  { destruct t; try apply eos_refl; cbn [series_len].
+    - eapply (summ_list_length (TBitlist n0)); eauto.
+    - eapply (summ_list_length (TList t n0)); eauto. }
+  destruct Hlen as [->| ->]; [now left|].
+  destruct (series_len t n) as [len| |];
+    [|now left|right; constructor; [right; constructor|constructor]].
+  right. apply Forall2_map_in. intros i _.
+  destruct (summ_view_get t n n' (N.of_nat i) Hb Hs) as [->|[[-> ->]|(g & g' & -> & -> & Hg)]].
+  - now left.
+  - right. constructor.
+  - right. destruct g, g'; cbn in Hg; try contradiction; cbn [got_step].
+    + subst. constructor.
+    + destruct Hg as [-> Hg]. now constructor.
+Qed.
+
 End Reads.
+
+(* ------------------------------------------------------------------------------------- *)
+(* 4. mutations (the pure instance TM of Mut.v)                                          *)
+(* ------------------------------------------------------------------------------------- *)
+
+Lemma biter_run_length : forall fuel it, (length (biter_run fuel it) <= fuel)%nat.
+Proof.
+  induction fuel as [|f IH]; intros it; cbn [biter_run]; [cbn; lia|].
+  destruct (biter_next it) as [it' [r ok]]. destruct ok; cbn [length]; [|lia].
+  specialize (IH it'). lia.
+Qed.
+
+Lemma g_path_len g : (length (g_path g) <= 65)%nat.
+Proof. unfold g_path. pose proof (biter_run_length 64 (fst (g_bit_iter g))). lia. Qed.
+
+Lemma g_path_three : g_path 3 = [true].
+Proof. vm_compute. reflexivity. Qed.
+
+Definition packed_ty (t : ty) : bool :=
+  match t with
+  | TBitvector _ | TBitlist _ => true
+  | TVector e _ | TList e _ => is_basic_elem e
+  | _ => false
+  end.
+
+Definition op_expands (o : op) : bool :=
+  match o with OAppend _ _ | OPop _ => true | _ => false end.
+
+Definition mutating (o : op) : bool :=
+  match o with OSet _ _ _ | OAppend _ _ | OPop _ | OChange _ _ _ => true | _ => false end.
+
+Section Mutations.
+Variable H : chunk -> chunk -> chunk.
+Variable zh : nat -> chunk.
+Hypothesis Hzh : forall d, zh d = zero_hash H d.
+Notation summ := (summ H).
+Notation backs := (backs zh).
+Notation zcf := (zero_collision_free H zh).
+Notation tm_mutate := (mutate node unit p_get (p_set zh) p_leaf p_pair p_chunk (p_zero zh) p_true zh).
+Notation tm_resolve := (resolve_src node unit p_leaf p_pair (p_zero zh) p_true zh).
+
+(* results of mutations: the new backing of the full tree against that of the partial tree *)
+Definition msim (r r' : node * unit) : Prop := summ (fst r) (fst r').
+
+(* handles and states: same types and hooks, backings related *)
+Definition hsim (x x' : handle node) : Prop :=
+  h_ty node x = h_ty node x' /\ h_hook node x = h_hook node x' /\
+  summ (h_back node x) (h_back node x').
+Definition ssim (st st' : tm_state) : Prop :=
+  Forall2 hsim (m_handles node unit st) (m_handles node unit st').
+
+Lemma packed_get_node_leafy t a q b : packed_ty t = true -> backs t a ->
+  get_node t a q = OK b -> leafy b.
+Proof.
+  intros Hp Hb Hg. destruct t as [w| |k| |k|k|e k|e k|fs|none opts]; try discriminate.
+  - apply get_node_ok in Hg. destruct Hg as (_ & _ & Hg).
+    rewrite view_depth_nonlist in Hg by reflexivity. eapply backs_bitvector; eauto.
+  - destruct (backs_list zh (TBitlist k) a eq_refl Hb) as (c & L & ->).
+    eapply (list_get_node_leafy (TBitlist k)); [reflexivity| |exact Hg].
+    intros q0 m. eapply backs_bitlist; eauto.
+  - apply get_node_ok in Hg. destruct Hg as (_ & _ & Hg).
+    rewrite view_depth_nonlist in Hg by reflexivity. eapply backs_vector_basic; eauto.
+  - destruct (backs_list zh (TList e k) a eq_refl Hb) as (c & L & ->).
+    eapply (list_get_node_leafy (TList e k)); [reflexivity| |exact Hg].
+    intros q0 m. eapply backs_list_basic; eauto.
+Qed.
+
+Lemma p_set_sim s s' a a' g e v v' : (e = true -> zcf a) -> summ a a' -> summ v v' ->
+  eosR msim (p_set zh s' a' g e v') (p_set zh s a g e v).
+Proof.
+  intros Hz Hs Hv. unfold p_set, setter. eapply (eosR_bind summ).
+  - destruct e.
+    + apply (summ_set_expand_eosR H zh Hzh); auto. apply g_path_len.
+    + now apply summ_set_noexp_eosR.
+  - intros r r' Hr. apply eosR_ok. exact Hr.
+Qed.
+
+Lemma tm_set_node_sim t s s' a a' i v v' : summ a a' -> summ v v' ->
+  eosR msim (m_set_node node unit (p_set zh) t s' a' i v') (m_set_node node unit (p_set zh) t s a i v).
+Proof.
+  intros Hs Hv. unfold m_set_node.
+  destruct (to_gindex64 i (view_depth t)) as [g| |]; cbn [bind];
+    [apply p_set_sim; auto; discriminate|apply eosR_err|right; left; auto].
+Qed.
+
+Lemma tm_set_length_sim s s' a a' len : summ a a' ->
+  eosR msim (m_set_length node unit (p_set zh) p_leaf s' a' len)
+            (m_set_length node unit (p_set zh) p_leaf s a len).
+Proof.
+  intros Hs. unfold m_set_length. cbn [p_leaf]. apply p_set_sim; [discriminate|exact Hs|constructor].
+Qed.
+
+Lemma tm_length_sim t limit s s' a a' : is_list_ty t = true -> backs t a -> summ a a' ->
+  eos (m_length node unit p_get p_chunk limit s' a') (m_length node unit p_get p_chunk limit s a).
+Proof.
+  intros Ht Hb Hs. destruct (backs_list zh t a Ht Hb) as (c & L & ->).
+  unfold m_length, p_get, getter. rewrite g_path_three.
+  destruct (summ_list_header H _ _ _ Hs) as [[x ->]|(c' & -> & Hc)]; [now left|now right].
+Qed.
+
+Lemma tm_check_index_sim t s s' a a' i : is_list_ty t = true -> backs t a -> summ a a' ->
+  eos (m_check_index node unit p_get p_chunk t s' a' i) (m_check_index node unit p_get p_chunk t s a i).
+Proof.
+  intros Ht Hb Hs. unfold m_check_index.
+  eapply (eos_bind eq); [apply eos_eosR; eapply tm_length_sim; eauto|]. intros ll ? <-. apply eos_refl.
+Qed.
+
+(* reading a packed chunk *)
+Lemma chunk_read_sim {X} (R : X -> X -> Prop) t s s' a a' q (K' K : chunk -> res X) :
+  packed_ty t = true -> backs t a -> summ a a' ->
+  (forall c, eosR R (K' c) (K c)) ->
+  eosR R (do b <- m_get_node node unit p_get t s' a' q; do c <- p_chunk s' b; K' c)
+         (do b <- m_get_node node unit p_get t s a q; do c <- p_chunk s b; K c).
+Proof.
+  intros Hp Hb Hs HK.
+  change (m_get_node node unit p_get t s' a' q) with (get_node t a' q).
+  change (m_get_node node unit p_get t s a q) with (get_node t a q).
+  eapply eosR_bind.
+  - apply eosR_strengthen; [apply (summ_get_node H t a a' q Hs)|].
+    intros b Hg. eapply packed_get_node_leafy; eauto.
+  - intros b b' [Hsb Hl]. cbv beta in Hl. rewrite (summ_leafy H _ _ Hsb Hl).
+    unfold p_chunk. destruct (leaf_chunk b) as [c| |]; cbn [bind];
+      [apply HK|apply eosR_err|right; left; auto].
+Qed.
+
+(* the common tail of Append / Pop: a write (possibly expanding), then the new length *)
+Lemma set_then_length_sim s s' a a' g e v v' len :
+  (e = true -> zcf a) -> summ a a' -> summ v v' ->
+  eosR msim
+    (do r <- p_set zh s' a' g e v'; let '(a1, s2) := r in
+     m_set_length node unit (p_set zh) p_leaf s2 a1 len)
+    (do r <- p_set zh s a g e v; let '(a1, s2) := r in
+     m_set_length node unit (p_set zh) p_leaf s2 a1 len).
+Proof.
+  intros Hz Hs Hv. eapply eosR_bind; [now apply p_set_sim|].
+  intros [a1 s2] [a1' s2'] Hr. unfold msim in Hr. cbn [fst] in Hr. now apply tm_set_length_sim.
+Qed.
+
+Lemma msim_refl r : msim r r.
+Proof. unfold msim. constructor. Qed.
+
+Lemma tm_bit_set_sim t s s' a a' i b : packed_ty t = true -> backs t a -> summ a a' ->
+  eosR msim (m_bit_set node unit p_get (p_set zh) p_leaf p_chunk t s' a' i b)
+            (m_bit_set node unit p_get (p_set zh) p_leaf p_chunk t s a i b).
+Proof.
+  intros Hp Hb Hs. unfold m_bit_set. apply chunk_read_sim; auto.
+  intros c. cbn [p_leaf]. apply tm_set_node_sim; [exact Hs|constructor].
+Qed.
+
+Lemma tm_packed_set_sim t e s s' a a' i v : packed_ty t = true -> backs t a -> summ a a' ->
+  eosR msim (m_packed_set node unit p_get (p_set zh) p_leaf p_chunk t e s' a' i v)
+            (m_packed_set node unit p_get (p_set zh) p_leaf p_chunk t e s a i v).
+Proof.
+  intros Hp Hb Hs. unfold m_packed_set. cbv zeta. apply chunk_read_sim; auto.
+  intros c. destruct (packed_set e c _ v) as [c1| |]; cbn [bind];
+    [|apply eosR_err|right; left; auto].
+  cbn [p_leaf]. apply tm_set_node_sim; [exact Hs|constructor].
+Qed.
+
+Lemma tm_bit_append_sim t limit s s' a a' b :
+  packed_ty t = true -> is_list_ty t = true -> backs t a -> zcf a -> summ a a' ->
+  eosR msim (m_bit_append node unit p_get (p_set zh) p_leaf p_chunk zh t limit s' a' b)
+            (m_bit_append node unit p_get (p_set zh) p_leaf p_chunk zh t limit s a b).
+Proof.
+  intros Hp Ht Hb Hz Hs. unfold m_bit_append.
+  eapply (eosR_bind eq); [apply eos_eosR; eapply tm_length_sim; eauto|]. intros ll ? <-.
+  destruct (limit <=? ll); [apply eosR_err|].
+  destruct (to_gindex64 (N.shiftr ll 8) (view_depth t)) as [g| |]; cbn [bind];
+    [|apply eosR_err|right; left; auto].
+  eapply (eosR_bind eq).
+  - destruct (N.land ll 255 =? 0); [apply eosR_same; reflexivity|].
+    apply chunk_read_sim; auto. intros c. apply eosR_same. reflexivity.
+  - intros c1 ? <-. cbn [p_leaf]. apply set_then_length_sim; auto. constructor.
+Qed.
+
+Lemma tm_bit_pop_sim t limit s s' a a' :
+  packed_ty t = true -> is_list_ty t = true -> backs t a -> zcf a -> summ a a' ->
+  eosR msim (m_bit_pop node unit p_get (p_set zh) p_leaf p_chunk t limit s' a')
+            (m_bit_pop node unit p_get (p_set zh) p_leaf p_chunk t limit s a).
+Proof.
+  intros Hp Ht Hb Hz Hs. unfold m_bit_pop.
+  eapply (eosR_bind eq); [apply eos_eosR; eapply tm_length_sim; eauto|]. intros ll ? <-.
+  destruct (ll =? 0); [apply eosR_err|].
+  destruct (to_gindex64 (N.shiftr (ll - 1) 8) (view_depth t)) as [g| |]; cbn [bind];
+    [|apply eosR_err|right; left; auto].
+  apply chunk_read_sim; auto. intros c. cbn [p_leaf].
+  apply set_then_length_sim; auto. constructor.
+Qed.
+
+Lemma tm_basic_append_sim t e limit s s' a a' v :
+  packed_ty t = true -> is_list_ty t = true -> backs t a -> zcf a -> summ a a' ->
+  eosR msim (m_basic_append node unit p_get (p_set zh) p_leaf p_chunk zh t e limit s' a' v)
+            (m_basic_append node unit p_get (p_set zh) p_leaf p_chunk zh t e limit s a v).
+Proof.
+  intros Hp Ht Hb Hz Hs. unfold m_basic_append.
+  eapply (eosR_bind eq); [apply eos_eosR; eapply tm_length_sim; eauto|]. intros ll ? <-.
+  destruct (limit <=? ll); [apply eosR_err|]. cbv zeta.
+  destruct (to_gindex64 (ll / per_node e) (view_depth t)) as [g| |]; cbn [bind];
+    [|apply eosR_err|right; left; auto].
+  eapply (eosR_bind eq).
+  - destruct (ll mod per_node e =? 0); [apply eosR_same; reflexivity|].
+    apply chunk_read_sim; auto. intros c. apply eosR_same. reflexivity.
+  - intros c1 ? <-. cbn [p_leaf]. apply set_then_length_sim; auto. constructor.
+Qed.
+
+Lemma tm_basic_pop_sim t e limit s s' a a' :
+  packed_ty t = true -> is_list_ty t = true -> backs t a -> zcf a -> summ a a' ->
+  eosR msim (m_basic_pop node unit p_get (p_set zh) p_leaf p_chunk zh t e limit s' a')
+            (m_basic_pop node unit p_get (p_set zh) p_leaf p_chunk zh t e limit s a).
+Proof.
+  intros Hp Ht Hb Hz Hs. unfold m_basic_pop.
+  eapply (eosR_bind eq); [apply eos_eosR; eapply tm_length_sim; eauto|]. intros ll ? <-.
+  destruct (ll =? 0); [apply eosR_err|]. cbv zeta.
+  destruct (to_gindex64 ((ll - 1) / per_node e) (view_depth t)) as [g| |]; cbn [bind];
+    [|apply eosR_err|right; left; auto].
+  apply chunk_read_sim; auto. intros c.
+  destruct (packed_val e (zh 0%nat) _) as [dv| |]; cbn [bind]; [|apply eosR_err|right; left; auto].
+  destruct (packed_set e c _ dv) as [c1| |]; cbn [bind]; [|apply eosR_err|right; left; auto].
+  cbn [p_leaf]. apply set_then_length_sim; auto. constructor.
+Qed.
+
+Lemma tm_complex_append_sim t limit s s' a a' v v' :
+  is_list_ty t = true -> backs t a -> zcf a -> summ a a' -> summ v v' ->
+  eosR msim (m_complex_append node unit p_get (p_set zh) p_leaf p_chunk t limit s' a' v')
+            (m_complex_append node unit p_get (p_set zh) p_leaf p_chunk t limit s a v).
+Proof.
+  intros Ht Hb Hz Hs Hv. unfold m_complex_append.
+  eapply (eosR_bind eq); [apply eos_eosR; eapply tm_length_sim; eauto|]. intros ll ? <-.
+  destruct (limit <=? ll); [apply eosR_err|].
+  destruct (to_gindex64 ll (view_depth t)) as [g| |]; cbn [bind];
+    [|apply eosR_err|right; left; auto].
+  apply set_then_length_sim; auto.
+Qed.
+
+Lemma tm_complex_pop_sim t limit s s' a a' :
+  is_list_ty t = true -> backs t a -> zcf a -> summ a a' ->
+  eosR msim (m_complex_pop node unit p_get (p_set zh) p_leaf p_chunk (p_zero zh) t limit s' a')
+            (m_complex_pop node unit p_get (p_set zh) p_leaf p_chunk (p_zero zh) t limit s a).
+Proof.
+  intros Ht Hb Hz Hs. unfold m_complex_pop.
+  eapply (eosR_bind eq); [apply eos_eosR; eapply tm_length_sim; eauto|]. intros ll ? <-.
+  destruct (ll =? 0); [apply eosR_err|].
+  destruct (to_gindex64 (ll - 1) (view_depth t)) as [g| |]; cbn [bind];
+    [|apply eosR_err|right; left; auto].
+  apply set_then_length_sim; auto. constructor.
+Qed.
+
+Lemma tm_slot_set_sim t s s' a a' i v v' : backs t a -> summ a a' -> summ v v' ->
+  eosR msim (m_slot_set node unit p_get (p_set zh) p_chunk t s' a' i v')
+            (m_slot_set node unit p_get (p_set zh) p_chunk t s a i v).
+Proof.
+  intros Hb Hs Hv. destruct t as [w| |k| |k|k|e k|e k|fs|none opts]; cbn [m_slot_set];
+    try apply eosR_err.
+  - destruct (k <=? i); [apply eosR_err|]. now apply tm_set_node_sim.
+  - eapply (eosR_bind eq); [apply eos_eosR; eapply tm_check_index_sim; eauto|]. intros _ _ _.
+    now apply tm_set_node_sim.
+  - destruct (_ <=? i); [apply eosR_err|]. now apply tm_set_node_sim.
+Qed.
+
+Lemma get_handle_sim st st' h : ssim st st' ->
+  eosR hsim (get_handle node unit st' h) (get_handle node unit st h).
+Proof.
+  unfold ssim, get_handle. generalize (m_handles node unit st) (m_handles node unit st').
+  intros l l' HF. revert h. induction HF as [|x x' l l' Hx HF IH]; intros [|h]; cbn [nth_error];
+    try apply eosR_err; [now apply eosR_ok|apply IH].
+Qed.
+
+Lemma tm_resolve_sim st st' x w : ssim st st' ->
+  eosR msim (tm_resolve st' x w) (tm_resolve st x w).
+Proof.
+  intros Hst. destruct x as [t v|h|]; cbn [resolve_src].
+  - destruct (m_store node unit st), (m_store node unit st'). apply eosR_same. apply msim_refl.
+  - eapply eosR_bind; [now apply get_handle_sim|]. intros y y' (_ & _ & Hy).
+    apply eosR_ok. exact Hy.
+  - destruct (m_store node unit st), (m_store node unit st'). apply eosR_same. apply msim_refl.
+Qed.
+
+Local Ltac with_lit X :=
+  destruct X as [?lv| |]; cbn [bind]; [|apply eosR_err|right; left; auto].
+
+Local Ltac with_resolve Hst x w :=
+  eapply eosR_bind; [apply (tm_resolve_sim _ _ x w Hst)|];
+  intros [?b ?s1] [?b' ?s1'] ?Hb'; unfold msim in *; cbn [fst] in *.
+
+(* one mutation of a handle *)
+Theorem summ_mutate st st' x x' o :
+  ssim st st' -> hsim x x' -> backs (h_ty node x) (h_back node x) ->
+  (op_expands o = true -> zcf (h_back node x)) ->
+  eosR msim (tm_mutate st' x' o) (tm_mutate st x o).
+Proof.
+  intros Hst Hx Hb Hz. destruct x as [t a hk], x' as [t' a' hk'].
+  destruct Hx as (Et & _ & Hs). cbn [h_ty h_back] in *. subst t'.
+  destruct o as [h i|h|h|h i v|h v|h|h sel v]; try apply eosR_err.
+  - (* Set *)
+    destruct t as [w| |k| |k|k|e k|e k|fs|none opts]; cbn [mutate h_ty h_back]; try apply eosR_err.
+    + destruct (k <=? i); [apply eosR_err|]. with_lit (lit_bool v). now apply tm_bit_set_sim.
+    + eapply (eosR_bind eq); [apply eos_eosR; eapply tm_check_index_sim; eauto|]. intros _ _ _.
+      with_lit (lit_bool v). now apply tm_bit_set_sim.
+    + destruct (is_basic_elem e) eqn:Hbe.
+      * destruct (k <=? i); [apply eosR_err|]. with_lit (lit_val v). now apply tm_packed_set_sim.
+      * with_resolve Hst v (Some e). now apply tm_slot_set_sim.
+    + destruct (is_basic_elem e) eqn:Hbe.
+      * eapply (eosR_bind eq); [apply eos_eosR; eapply tm_check_index_sim; eauto|]. intros _ _ _.
+        with_lit (lit_val v). now apply tm_packed_set_sim.
+      * with_resolve Hst v (Some e). now apply tm_slot_set_sim.
+    + with_resolve Hst v (@None ty). now apply tm_slot_set_sim.
+  - (* Append *)
+    specialize (Hz eq_refl).
+    destruct t as [w| |k| |k|k|e k|e k|fs|none opts]; cbn [mutate h_ty h_back]; try apply eosR_err.
+    + with_lit (lit_bool v). now apply tm_bit_append_sim.
+    + destruct (is_basic_elem e) eqn:Hbe.
+      * with_lit (lit_val v). now apply tm_basic_append_sim.
+      * with_resolve Hst v (Some e). now apply tm_complex_append_sim.
+  - (* Pop *)
+    specialize (Hz eq_refl).
+    destruct t as [w| |k| |k|k|e k|e k|fs|none opts]; cbn [mutate h_ty h_back]; try apply eosR_err.
+    + now apply tm_bit_pop_sim.
+    + destruct (is_basic_elem e) eqn:Hbe.
+      * now apply tm_basic_pop_sim.
+      * now apply tm_complex_pop_sim.
+  - (* Change *)
+    destruct t as [w| |k| |k|k|e k|e k|fs|none opts]; cbn [mutate h_ty h_back]; try apply eosR_err.
+    destruct (wrap8 (union_count none opts) <=? sel); [apply eosR_err|].
+    eapply (eosR_bind msim).
+    + destruct v as [tv vv|hv|]; try apply (tm_resolve_sim _ _ _ _ Hst).
+      destruct (negb (sel =? 0)); [apply eosR_err|apply (tm_resolve_sim _ _ _ _ Hst)].
+    + intros [c s1] [c' s1'] Hc. unfold msim in Hc. cbn [fst] in Hc.
+      cbn [p_leaf p_pair]. apply eosR_ok. unfold msim. cbn [fst]. constructor; [exact Hc|constructor].
+Qed.
+
+End Mutations.
+
+(* ---- the machine step on a one-handle state ---- *)
+
+Definition op_target (o : op) : nat :=
+  match o with
+  | OGet h _ | OUValue h | OCopy h | OSet h _ _ | OAppend h _ | OPop h | OChange h _ _ => h
+  end.
+
+Section Step.
+Variable H : chunk -> chunk -> chunk.
+Variable zh : nat -> chunk.
+Hypothesis Hzh : forall d, zh d = zero_hash H d.
+Notation summ := (summ H).
+Notation backs := (backs zh).
+Notation zcf := (zero_collision_free H zh).
+Notation tm_mutate := (mutate node unit p_get (p_set zh) p_leaf p_pair p_chunk (p_zero zh) p_true zh).
+Notation tm_backing := (set_backing node unit p_get (p_set zh) p_chunk).
+
+Lemma tm_step_mutating st o : mutating o = true ->
+  tm_step zh st o =
+  match get_handle node unit st (op_target o) with
+  | OK x =>
+    match tm_mutate st x o with
+    | OK (b, s') =>
+      let '(st1, r) := tm_backing (hook_fuel node unit st) st (op_target o) b s' in
+      (st1, match r with OK _ => OK MUnit | Err => Err | Panic => Panic end)
+    | Err => (st, Err)
+    | Panic => (st, Panic)
+    end
+  | Err => (st, Err)
+  | Panic => (st, Panic)
+  end.
+Proof. destruct o; try discriminate; intros _; reflexivity. Qed.
+
+Lemma tm_backing_one t n b s : tm_backing (hook_fuel node unit (tm_init t n)) (tm_init t n) 0 b s =
+  (tm_init t b, OK tt).
+Proof. destruct s. reflexivity. Qed.
+
+Lemma get_handle_one t n : get_handle node unit (tm_init t n) 0 = OK (mkH node t n None).
+Proof. reflexivity. Qed.
+
+(* a mutating operation on a view of the partial tree n': an error that leaves the view as it
+   was, or the outcome of the same operation on the full tree n (a Panic of the full tree
+   included), with new backings again related by [summ] *)
+Theorem summ_tm_step t n n' o : mutating o = true -> backs t n ->
+  (op_expands o = true -> zcf n) -> summ n n' ->
+  (snd (tm_step zh (tm_init t n') o) = Err /\ fst (tm_step zh (tm_init t n') o) = tm_init t n') \/
+  (snd (tm_step zh (tm_init t n') o) = snd (tm_step zh (tm_init t n) o) /\
+   exists m m', fst (tm_step zh (tm_init t n) o) = tm_init t m /\
+                fst (tm_step zh (tm_init t n') o) = tm_init t m' /\ summ m m').
+Proof.
+  intros Hm Hb Hz Hs. rewrite !(tm_step_mutating _ o Hm).
+  destruct (op_target o) as [|h] eqn:Eh.
+  2:{ left. unfold get_handle, tm_init. cbn [m_handles nth_error]. destruct h; auto. }
+  rewrite !get_handle_one.
+  assert (Hst : ssim H (tm_init t n) (tm_init t n')).
+  { unfold ssim, tm_init. cbn [m_handles]. constructor; [|constructor].
+    unfold hsim. cbn [h_ty h_hook h_back]. auto. }
+  assert (Hx : hsim H (mkH node t n None) (mkH node t n' None)).
+  { unfold hsim. cbn [h_ty h_hook h_back]. auto. }
+  pose proof (summ_mutate H zh Hzh _ _ _ _ o Hst Hx Hb Hz) as HM.
+  destruct HM as [E|[[E1 E2]|((b & s) & (b' & s') & E1 & E2 & Hr)]].
+  - left. rewrite E. auto.
+  - right. rewrite E1, E2. split; [reflexivity|]. exists n, n'. auto.
+  - right. rewrite E1, E2, !tm_backing_one. cbn [fst snd]. split; [reflexivity|].
+    exists b, b'. unfold msim in Hr. auto.
+Qed.
+
+Corollary summ_tm_step_root t n n' o : mutating o = true -> backs t n ->
+  (op_expands o = true -> zcf n) -> summ n n' ->
+  snd (tm_step zh (tm_init t n') o) = Err \/
+  (snd (tm_step zh (tm_init t n') o) = snd (tm_step zh (tm_init t n) o) /\
+   exists m m', fst (tm_step zh (tm_init t n) o) = tm_init t m /\
+                fst (tm_step zh (tm_init t n') o) = tm_init t m' /\
+                root_of H m' = root_of H m).
+Proof.
+  intros Hm Hb Hz Hs.
+  destruct (summ_tm_step t n n' o Hm Hb Hz Hs) as [[E _]|(E & m & m' & E1 & E2 & Hmm)];
+    [now left|right]. split; [exact E|]. exists m, m'. repeat split; auto. now apply summ_root.
+Qed.
+
+End Step.
+
+(* ------------------------------------------------------------------------------------- *)
+(* 5. how to obtain the hypotheses; never a panic (with C04)                             *)
+(* ------------------------------------------------------------------------------------- *)
+
+Lemma from_val_backs H zh t v n : (forall d, zh d = zero_hash H d) ->
+  wf_ty t = true -> small_params t = true -> small_fields t = true -> has_type v t = true ->
+  from_val zh t v = OK n -> backs zh t n.
+Proof.
+  intros Hzh Hwf Hsp Hsf Hty E.
+  destruct (from_val_repr H zh Hzh t v Hwf Hsp Hsf Hty) as (n0 & E0 & Hr).
+  rewrite E in E0. injection E0 as <-. exists v. auto.
+Qed.
+
+From Ztyp Require Import VMach MutProofs.
+
+(* C04 shows that a mutation of a well-typed view with a well-typed source never panics; hence
+   neither does the same mutation on any partial version of it *)
+Corollary summ_mutate_no_panic H zh (Hzh : forall d, zh d = zero_hash H d) tm vm tm' x x' y o :
+  R zh tm vm -> hrel zh x y ->
+  (forall h s, op_src o = Some (h, s) -> src_fits vm (op_want (vh_ty y) o) s) ->
+  ssim H tm tm' -> hsim H x x' ->
+  (op_expands o = true -> zero_collision_free H zh (h_back node x)) ->
+  mutate node unit p_get (p_set zh) p_leaf p_pair p_chunk (p_zero zh) p_true zh tm' x' o <> Panic.
+Proof.
+  intros HR Hxy Hfit Hst Hx Hz.
+  assert (Hb : backs zh (h_ty node x) (h_back node x)).
+  { destruct Hxy as (Ht & _ & _ & Hty & Hr). rewrite Ht. exists (vh_val y). auto. }
+  eapply eosR_no_panic; [apply (summ_mutate H zh Hzh tm tm' x x' o Hst Hx Hb Hz)|].
+  eapply mutate_no_panic; eauto.
+Qed.
+
+(* ------------------------------------------------------------------------------------- *)
+(* 6. Examples: the hypotheses are satisfiable; the collision hypothesis is necessary    *)
+(* ------------------------------------------------------------------------------------- *)
+
+Notation xH := TreeProofs.xH.
+Notation xzh := TreeProofs.xzh.
+Notation xc := TreeProofs.xc.
+
+(* a List[uint256, 4] holding [1; 2] (toy hash xH / table xzh of TreeProofs) *)
+Definition ex12_ty : ty := TList (TUint 32) 4.
+Definition ex12_val : val := VSeq [VUint 1; VUint 2].
+Definition ex12_full : node :=
+  Pair (Pair (Pair (Leaf (xc 1)) (Leaf (xc 2))) (Leaf (xzh 1))) (len_leaf 2).
+(* the pair of elements replaced by its summary root *)
+Definition ex12_part : node :=
+  Pair (Pair (Leaf (xH (xc 1) (xc 2))) (Leaf (xzh 1))) (len_leaf 2).
+
+Example ex12_from_val : from_val xzh ex12_ty ex12_val = OK ex12_full.
+Proof. vm_compute. reflexivity. Qed.
+
+Example ex12_backs : backs xzh ex12_ty ex12_full.
+Proof.
+  apply (from_val_backs xH xzh ex12_ty ex12_val); try (vm_compute; reflexivity).
+Qed.
+
+Example ex12_summarize : summarize xzh xH ex12_full 4 = OK ex12_part.
+Proof. vm_compute. reflexivity. Qed.
+
+Example ex12_summ : summ xH ex12_full ex12_part.
+Proof. apply (summarize_summ xH xzh ex12_full 4). exact ex12_summarize. Qed.
+
+(* the zero hashes of the toy hash: 0, 7, 63, 255, 255, ... *)
+Lemma xzh_stable k : (3 <= k)%nat -> xzh k = xzh 3.
+Proof.
+  induction 1 as [|k Hk IH]; [reflexivity|].
+  change (xzh (S k)) with (xH (xzh k) (xzh k)). rewrite IH. vm_compute. reflexivity.
+Qed.
+
+Example ex12_zcf : zero_collision_free xH xzh ex12_full.
+Proof.
+  intros p m k Hg Hr.
+  assert (Hk : exists j, (j <= 3)%nat /\ xzh k = xzh j).
+  { destruct (Nat.le_gt_cases k 3) as [Hle|Hgt]; [exists k; auto|].
+    exists 3%nat. split; [lia|]. apply xzh_stable. lia. }
+  destruct Hk as (j & Hj & Ej).
+  assert (Hleaf : forall c, m = Leaf c -> zt xzh k m).
+  { intros c ->. cbn [root_of] in Hr. rewrite Hr. constructor. }
+  unfold ex12_full in Hg.
+  destruct p as [|b1 [|b2 [|b3 [|b4 p]]]]; try destruct b1; try destruct b2; try destruct b3;
+    cbn [get_path] in Hg; try discriminate Hg; injection Hg as <-;
+    try (eapply Hleaf; reflexivity);
+    exfalso; rewrite Ej in Hr;
+    destruct j as [|[|[|[|j]]]]; try lia; vm_compute in Hr; discriminate Hr.
+Qed.
+
+(* reads: the summarised elements cannot be read, everything else reads as before *)
+Example ex12_reads :
+  list_length 4 ex12_part = OK 2 /\ list_length 4 ex12_full = OK 2 /\
+  view_get ex12_ty ex12_part 0 = Err /\
+  view_get ex12_ty ex12_full 0 = OK (GVal (VUint 1)) /\
+  ser_node ex12_ty ex12_part = Err /\
+  byte_len ex12_ty ex12_part = byte_len ex12_ty ex12_full /\
+  ro_iter ex12_ty ex12_part 1 = [IErr] /\
+  ro_iter ex12_ty ex12_full 1 = [IVal (VUint 1); IVal (VUint 2); IEnd].
+Proof. repeat split; vm_compute; reflexivity. Qed.
+
+(* a mutation that succeeds on both: Append(3) expands the zero summary to the right *)
+Definition ex12_op : op := OAppend 0 (SLit (TUint 32) (VUint 3)).
+
+Example ex12_step :
+  mutating ex12_op = true /\ op_expands ex12_op = true /\
+  tm_step xzh (tm_init ex12_ty ex12_part) ex12_op =
+    (tm_init ex12_ty (Pair (Pair (Leaf (xH (xc 1) (xc 2))) (Pair (Leaf (xc 3)) (Leaf (xzh 0))))
+                           (len_leaf 3)), OK MUnit) /\
+  tm_step xzh (tm_init ex12_ty ex12_full) ex12_op =
+    (tm_init ex12_ty (Pair (Pair (Pair (Leaf (xc 1)) (Leaf (xc 2))) (Pair (Leaf (xc 3)) (Leaf (xzh 0))))
+                           (len_leaf 3)), OK MUnit).
+Proof. repeat split; vm_compute; reflexivity. Qed.
+
+(* a container with the list as a field; the list field summarised as a whole *)
+Definition ex12c_ty : ty := TContainer [TUint 8; ex12_ty; TRoot].
+Definition ex12c_val : val := VCont [VUint 77; ex12_val; VBytes (repeat Byte.x01 32)].
+Definition ex12c_full : node :=
+  Pair (Pair (Leaf (xc 77)) ex12_full) (Pair (Leaf (repeat Byte.x01 32)) (Leaf (xzh 0))).
+Definition ex12c_part : node :=
+  Pair (Pair (Leaf (xc 77)) (Leaf (root_of xH ex12_full)))
+       (Pair (Leaf (repeat Byte.x01 32)) (Leaf (xzh 0))).
+
+Example ex12c_hyps :
+  from_val xzh ex12c_ty ex12c_val = OK ex12c_full /\
+  summarize xzh xH ex12c_full 5 = OK ex12c_part /\
+  wf_ty ex12c_ty = true /\ has_type ex12c_val ex12c_ty = true.
+Proof. repeat split; vm_compute; reflexivity. Qed.
+
+Example ex12c_reads :
+  view_get ex12c_ty ex12c_part 0 = view_get ex12c_ty ex12c_full 0 /\
+  view_get ex12c_ty ex12c_part 1 = OK (GNode ex12_ty (Leaf (root_of xH ex12_full))) /\
+  view_get ex12c_ty ex12c_full 1 = OK (GNode ex12_ty ex12_full) /\
+  ser_node ex12c_ty ex12c_part = Err /\
+  (exists bs, ser_node ex12c_ty ex12c_full = OK bs) /\
+  root_of xH ex12c_part = root_of xH ex12c_full.
+Proof. repeat split; try (vm_compute; reflexivity). eexists. vm_compute. reflexivity. Qed.
+
+(* ---- the collision hypothesis cannot be dropped ----
+   A pair hash with one collision with a zero hash: cH (xc 9) 0 = cH 0 0.  The List[uint256, 2]
+   holding [9] has the contents subtree (9, 0), whose root is the zero hash of height 1.  After
+   summarising it, Append(11) takes the summary for an empty subtree: the element 9 is silently
+   lost and the root differs.  With a collision resistant hash this cannot happen. *)
+Definition cH (a b : chunk) : chunk :=
+  if chunk_eqb a (xc 9) && chunk_eqb b zero_chunk then xH zero_chunk zero_chunk else xH a b.
+Definition czh : nat -> chunk := zero_hash cH.
+Definition cex_ty : ty := TList (TUint 32) 2.
+Definition cex_full : node := Pair (Pair (Leaf (xc 9)) (Leaf zero_chunk)) (len_leaf 1).
+Definition cex_part : node := Pair (Leaf (czh 1)) (len_leaf 1).
+Definition cex_op : op := OAppend 0 (SLit (TUint 32) (VUint 11)).
+
+Example cex_collision :
+  from_val czh cex_ty (VSeq [VUint 9]) = OK cex_full /\
+  summarize czh cH cex_full 2 = OK cex_part /\
+  (exists m m',
+     tm_step czh (tm_init cex_ty cex_full) cex_op = (tm_init cex_ty m, OK MUnit) /\
+     tm_step czh (tm_init cex_ty cex_part) cex_op = (tm_init cex_ty m', OK MUnit) /\
+     root_of cH m' <> root_of cH m /\
+     view_get cex_ty m 0 = OK (GVal (VUint 9)) /\
+     view_get cex_ty m' 0 = OK (GVal (VUint 0))) /\
+  ~ zero_collision_free cH czh cex_full.
+Proof.
+  split; [vm_compute; reflexivity|]. split; [vm_compute; reflexivity|]. split.
+  - eexists _, _. split; [vm_compute; reflexivity|]. split; [vm_compute; reflexivity|].
+    split; [vm_compute; discriminate|]. split; vm_compute; reflexivity.
+  - intros Hz.
+    assert (Hzt : zt czh 1 (Pair (Leaf (xc 9)) (Leaf zero_chunk))).
+    { apply (Hz [false]); [reflexivity|vm_compute; reflexivity]. }
+    assert (Hne : czh 0 <> xc 9) by (vm_compute; discriminate).
+    inversion Hzt as [|d a b Ha Hb]; subst. inversion Ha; try congruence.
+Qed.
+
+(* ------------------------------------------------------------------------------------- *)
+(* 7. the results in the form used by Props/C12.v                                        *)
+(* ------------------------------------------------------------------------------------- *)
+
+Lemma bind_np {A B} (r : res A) (k : A -> res B) :
+  r <> Panic -> (forall a, k a <> Panic) -> bind r k <> Panic.
+Proof. intros Hr Hk. destruct r; cbn [bind]; [apply Hk|discriminate|congruence]. Qed.
+
+Lemma get_node_np t n i : get_node t n i <> Panic.
+Proof.
+  unfold get_node, to_gindex64. destruct (64 <=? view_depth t); [discriminate|].
+  cbv zeta. destruct (_ <=? i); [discriminate|]. cbn [bind]. apply get_path_total.
+Qed.
+
+Lemma check_index_np t n i : check_index t n i <> Panic.
+Proof.
+  unfold check_index. apply bind_np; [apply IterProofs.list_length_not_panic|].
+  intros ll. destruct (ll <=? i); [discriminate|]. destruct (_ <=? i); discriminate.
+Qed.
+
+Lemma view_get_no_panic t n i : view_get t n i <> Panic.
+Proof.
+  assert (Hpk : forall e b, (do c <- leaf_chunk b; do v <- packed_val e c
+                 (wrap8 (N.land i (per_node e - 1))); OK (GVal v)) <> Panic).
+  { intros e b. apply bind_np; [apply IterProofs.leaf_chunk_not_panic|]. intros c.
+    apply bind_np; [apply IterProofs.packed_val_not_panic|]. discriminate. }
+  assert (Hbit : forall b, (do c <- leaf_chunk b; OK (GVal (VBool (chunk_get_bit c (wrap8 i))))) <> Panic).
+  { intros b. apply bind_np; [apply IterProofs.leaf_chunk_not_panic|]. discriminate. }
+  destruct t as [w| |k| |k|k|e k|e k|fs|none opts]; cbn [view_get]; try discriminate.
+  - destruct (k <=? i); [discriminate|]. apply bind_np; [apply get_node_np|apply Hbit].
+  - apply bind_np; [apply check_index_np|]. intros _.
+    apply bind_np; [apply get_node_np|apply Hbit].
+  - destruct (k <=? i); [discriminate|]. destruct (is_basic_elem e).
+    + cbv zeta. apply bind_np; [apply get_node_np|apply Hpk].
+    + apply bind_np; [apply get_node_np|discriminate].
+  - apply bind_np; [apply check_index_np|]. intros _. destruct (is_basic_elem e).
+    + cbv zeta. apply bind_np; [apply get_node_np|apply Hpk].
+    + apply bind_np; [apply get_node_np|discriminate].
+  - destruct (nth_error fs (nat_of i)); [|discriminate].
+    apply bind_np; [apply get_node_np|discriminate].
+Qed.
+
+Section Facade.
+Variable H : chunk -> chunk -> chunk.
+Variable zh : nat -> chunk.
+Notation summ := (summ H).
+
+(* typed getters: a plain value read from the partial tree is the value of the full tree; a
+   sub-view backing is the full tree's sub-view backing up to summaries; never a panic *)
+Corollary summ_view_get_val t n n' i v : backs zh t n -> summ n n' ->
+  view_get t n' i = OK (GVal v) -> view_get t n i = OK (GVal v).
+Proof.
+  intros Hb Hs Hg.
+  destruct (summ_view_get H zh t n n' i Hb Hs) as [E|[[E _]|(g & g' & E1 & E2 & Hr)]];
+    try congruence.
+  rewrite Hg in E2. injection E2 as <-. destruct g; cbn in Hr; [now subst|contradiction].
+Qed.
+
+Corollary summ_view_get_node t n n' i e m' : backs zh t n -> summ n n' ->
+  view_get t n' i = OK (GNode e m') -> exists m, view_get t n i = OK (GNode e m) /\ summ m m'.
+Proof.
+  intros Hb Hs Hg.
+  destruct (summ_view_get H zh t n n' i Hb Hs) as [E|[[E _]|(g & g' & E1 & E2 & Hr)]];
+    try congruence.
+  rewrite Hg in E2. injection E2 as <-. destruct g; cbn in Hr; [contradiction|].
+  destruct Hr as [-> Hr]. eauto.
+Qed.
+
+(* the read-only iterator, component by component *)
+Lemma iter_sim_nth l l' : iter_sim H l l' -> forall i s', nth_error l' i = Some s' ->
+  s' = IErr \/ exists s, nth_error l i = Some s /\ step_sim H s s'.
+Proof.
+  induction 1 as [l| |s s' l l' Hs Hl IH]; intros i x Hx.
+  - destruct i as [|[|i]]; cbn in Hx; try discriminate. injection Hx as <-. now left.
+  - destruct i; discriminate.
+  - destruct i as [|i]; cbn [nth_error] in *.
+    + injection Hx as <-. right. eauto.
+    + now apply IH.
+Qed.
+
+Corollary summ_ro_iter_comp t n n' extra i s' : wf_ty t = true -> backs zh t n -> summ n n' ->
+  nth_error (ro_iter t n' extra) i = Some s' -> is_comp s' = true ->
+  exists s, nth_error (ro_iter t n extra) i = Some s /\ step_sim H s s'.
+Proof.
+  intros Hwf Hb Hs Hn Hc.
+  destruct (iter_sim_nth _ _ (summ_ro_iter H zh t n n' extra Hwf Hb Hs) i s' Hn) as [->|Hx];
+    [discriminate|exact Hx].
+Qed.
+
+Corollary summ_ro_iter_no_panic t n n' extra : wf_ty t = true -> backs zh t n -> summ n n' ->
+  ~ In IPanic (ro_iter t n extra) -> ~ In IPanic (ro_iter t n' extra).
+Proof.
+  intros Hwf Hb Hs Hnp Hin. apply In_nth_error in Hin. destruct Hin as [i Hi].
+  destruct (iter_sim_nth _ _ (summ_ro_iter H zh t n n' extra Hwf Hb Hs) i IPanic Hi) as [E|(s & Hn & Hsim)];
+    [discriminate|]. inversion Hsim; subst. apply Hnp. eapply nth_error_In; eauto.
+Qed.
+
+End Facade.
+
+(* the node iterator over arbitrary trees *)
+Lemma summ_node_iter_plain H n n' len depth : summ H n n' ->
+  eosR (Forall2 (summ H)) (node_iter_all n' len depth) (node_iter_all n len depth).
+Proof.
+  intros Hs. eapply eosR_mono; [|apply (summ_node_iter H (fun _ => True)); [exact Hs|auto]].
+  intros ns ns' HF. induction HF as [|a a' l l' [Ha _] HF IH]; constructor; auto.
+Qed.
+
+Lemma summarize_all_root H zh gs n n' :
+  summarize_all H zh n gs = OK n' -> summ H n n' /\ root_of H n' = root_of H n.
+Proof.
+  intros E. pose proof (summarize_all_summ H zh gs n n' E) as Hs.
+  split; [exact Hs|now apply summ_root].
+Qed.
+
+Lemma summ_set_expand_root H zh (Hzh : forall d, zh d = zero_hash H d) p n n' v v' r' :
+  zero_collision_free H zh n -> summ H n n' -> summ H v v' ->
+  set_path zh n' p true v' = OK r' ->
+  exists r, set_path zh n p true v = OK r /\ summ H r r' /\ root_of H r' = root_of H r.
+Proof.
+  intros Hz Hs Hv E. destruct (summ_set_expand H zh Hzh p n n' v v' r' Hz Hs Hv E) as (r & E1 & Hr).
+  exists r. repeat split; auto. now apply summ_root.
+Qed.
+
+(* two summarisations in a row: the element pair, then the whole contents subtree *)
+Example ex12_summarize_all :
+  summarize_all xH xzh ex12_full [4; 2] =
+  OK (Pair (Leaf (root_of xH (Pair (Pair (Leaf (xc 1)) (Leaf (xc 2))) (Leaf (xzh 1))))) (len_leaf 2)).
+Proof. vm_compute. reflexivity. Qed.
+
+(* ------------------------------------------------------------------------------------- *)
+(* 8. reading a whole value back through the typed getters ([read_val])                  *)
+(* ------------------------------------------------------------------------------------- *)
+
+Section ReadVal.
+Variable H : chunk -> chunk -> chunk.
+Variable zh : nat -> chunk.
+Notation summ := (summ H).
+Notation backs := (backs zh).
+
+Lemma backs_list_bound e k c L : is_basic_elem e = false ->
+  backs (TList e k) (Pair c (len_leaf L)) ->
+  exists L0, len_leaf L = len_leaf L0 /\ L0 <= 2 ^ contents_depth (TList e k) /\
+  forall i m, i < L0 -> bottom c (contents_depth (TList e k)) i = OK m -> backs e m.
+Proof.
+  intros Hb (v & Hty & Hr). destruct v as [x|x|x|x|vs|x|x y]; try (cbn [has_type] in Hty; discriminate Hty).
+  rewrite repr_list, Hb in Hr. destruct Hr as (c0 & E & Hr). apply pair_inj in E. destruct E as [<- E].
+  cbn [has_type] in Hty. apply andb_true_iff in Hty. destruct Hty as [_ Hty].
+  exists (lenN vs). split; [exact E|]. split.
+  - pose proof (series_length zh _ _ _ Hr) as Hl. unfold lenN in *. rewrite map_length in Hl.
+    rewrite <- cdepth_N. exact Hl.
+  - intros i m Hi Hbot. rewrite <- cdepth_N in Hbot. eapply elems_bottom_backs; eauto.
+Qed.
+
+Lemma packed_tail_not_node (r : res node) (K : chunk -> res val) e0 c0 :
+  (do b <- r; do c <- leaf_chunk b; do v <- K c; OK (GVal v)) = OK (GNode e0 c0) -> False.
+Proof.
+  destruct r as [b| |]; cbn [bind]; try discriminate.
+  destruct (leaf_chunk b) as [c| |]; cbn [bind]; try discriminate.
+  destruct (K c); cbn [bind]; discriminate.
+Qed.
+
+Lemma bit_tail_not_node (r : res node) (K : chunk -> val) e0 c0 :
+  (do b <- r; do c <- leaf_chunk b; OK (GVal (K c))) = OK (GNode e0 c0) -> False.
+Proof.
+  destruct r as [b| |]; cbn [bind]; try discriminate.
+  destruct (leaf_chunk b) as [c| |]; cbn [bind]; discriminate.
+Qed.
+
+Lemma node_tail_inv (r : res node) e e0 c0 :
+  (do c <- r; OK (GNode e c)) = OK (GNode e0 c0) -> e0 = e /\ r = OK c0.
+Proof. destruct r as [c| |]; cbn [bind]; try discriminate. intros [= <- <-]. auto. Qed.
+
+(* a sub-view handed out by a typed Get of a well-typed view is well typed *)
+Lemma view_get_node_backs t n i e0 c0 : wf_ty t = true -> backs t n ->
+  view_get t n i = OK (GNode e0 c0) -> backs e0 c0 /\ wf_ty e0 = true.
+Proof.
+  intros Hwf Hb Hg. destruct t as [w| |k| |k|k|e k|e k|fs|none opts]; cbn [view_get] in Hg;
+    try discriminate.
+  - destruct (k <=? i); [discriminate|]. exfalso.
+    exact (bit_tail_not_node _ (fun c => VBool (chunk_get_bit c (wrap8 i))) _ _ Hg).
+  - destruct (check_index _ n i); cbn [bind] in Hg; try discriminate. exfalso.
+    exact (bit_tail_not_node _ (fun c => VBool (chunk_get_bit c (wrap8 i))) _ _ Hg).
+  - cbn [wf_ty] in Hwf. apply andb_true_iff in Hwf. destruct Hwf as [_ Hwfe].
+    destruct (N.leb_spec k i) as [|Hi]; [discriminate|].
+    destruct (is_basic_elem e) eqn:Hbe.
+    { exfalso. cbv zeta in Hg.
+      exact (packed_tail_not_node _ (fun c => packed_val e c (wrap8 (N.land i (per_node e - 1)))) _ _ Hg). }
+    apply node_tail_inv in Hg. destruct Hg as [-> Hg]. split; [|exact Hwfe].
+    apply get_node_ok in Hg. destruct Hg as (_ & _ & Hg).
+    rewrite view_depth_nonlist in Hg by reflexivity. eapply backs_vector_elems; eauto.
+  - cbn [wf_ty] in Hwf.
+    destruct (backs_list zh (TList e k) n eq_refl Hb) as (c & L & ->).
+    unfold check_index in Hg. cbn [list_limit] in Hg.
+    destruct (list_length k (Pair c (len_leaf L))) as [ll| |] eqn:Hll; cbn [bind] in Hg;
+      try discriminate.
+    destruct (N.leb_spec ll i) as [|Hi]; [discriminate|].
+    destruct (k <=? i); [discriminate|]. cbn [bind] in Hg.
+    destruct (is_basic_elem e) eqn:Hbe.
+    { exfalso. cbv zeta in Hg.
+      exact (packed_tail_not_node _ (fun c => packed_val e c (wrap8 (N.land i (per_node e - 1)))) _ _ Hg). }
+    apply node_tail_inv in Hg. destruct Hg as [-> Hg]. split; [|exact Hwf].
+    destruct (backs_list_bound e k c L Hbe Hb) as (L0 & EL & Hbound & Hel).
+    rewrite EL in Hll. apply list_length_len_leaf_le in Hll.
+    apply get_node_ok in Hg. destruct Hg as (_ & _ & Hg).
+    rewrite (view_depth_list (TList e k) eq_refl), bottom_pair in Hg.
+    rewrite (testbit_small i (contents_depth (TList e k)) (contents_depth (TList e k))) in Hg
+      by lia.
+    eapply Hel; eauto. lia.
+  - cbn [wf_ty] in Hwf. apply andb_true_iff in Hwf. destruct Hwf as [_ Hwfs].
+    destruct (nth_error fs (nat_of i)) as [f|] eqn:Hf; [|discriminate].
+    apply node_tail_inv in Hg. destruct Hg as [-> Hg]. split.
+    + apply get_node_ok in Hg. destruct Hg as (_ & _ & Hg).
+      rewrite view_depth_nonlist in Hg by reflexivity.
+      rewrite <- (N2Nat.id i) in Hg. eapply backs_container; eauto.
+    + rewrite forallb_forall in Hwfs. apply Hwfs. eapply nth_error_In; eauto.
+Qed.
+
+Theorem summ_read_val : forall fuel t n n', wf_ty t = true -> backs t n -> summ n n' ->
+  eos (read_val fuel t n') (read_val fuel t n).
+Proof.
+  induction fuel as [|f IH]; intros t n n' Hwf Hb Hs; [apply eos_refl|].
+  assert (Helems : forall count,
+    eos (mapM (fun i => do g <- view_get t n' (N.of_nat i);
+                        match g with GVal v => OK v | GNode e c => read_val f e c end)
+              (seq 0 (nat_of count)))
+        (mapM (fun i => do g <- view_get t n (N.of_nat i);
+                        match g with GVal v => OK v | GNode e c => read_val f e c end)
+              (seq 0 (nat_of count)))).
+  { intros count. apply eos_eosR. eapply eosR_mono; [|apply (mapM_eosR_same eq)].
+    - intros ys ys' Hys. now apply Forall2_eq_eq.
+    - intros i _. eapply eosR_bind.
+      + apply eosR_strengthen; [apply (summ_view_get H zh t n n' (N.of_nat i) Hb Hs)|].
+        intros g Hg. exact Hg.
+      + intros g g' [Hsim Hg]. cbv beta in Hg. destruct g as [v|e c], g' as [v'|e' c']; cbn in Hsim;
+          try contradiction.
+        * subst v'. apply eosR_same. reflexivity.
+        * destruct Hsim as [<- Hc]. apply eos_eosR.
+          destruct (view_get_node_backs t n _ e c Hwf Hb Hg) as [Hbc Hwfe]. now apply IH. }
+  destruct t as [w| |k| |k|k|e k|e k|fs|none opts]; cbn [read_val].
+  - rewrite (summ_leafy H _ _ Hs (backs_basic zh (TUint w) n I Hb)). apply eos_refl.
+  - rewrite (summ_leafy H _ _ Hs (backs_basic zh TBool n I Hb)). apply eos_refl.
+  - rewrite (summ_leafy H _ _ Hs (backs_basic zh (TBytes k) n I Hb)). apply eos_refl.
+  - rewrite (summ_leafy H _ _ Hs (backs_basic zh TRoot n I Hb)). apply eos_refl.
+  - eapply (eos_bind eq); [apply eos_eosR; apply Helems|]. intros vs ? <-. apply eos_refl.
+  - eapply (eos_bind eq); [apply eos_eosR; apply (summ_list_length H zh (TBitlist k)); auto|].
+    intros ll ? <-.
+    eapply (eos_bind eq); [apply eos_eosR; apply Helems|]. intros vs ? <-. apply eos_refl.
+  - eapply (eos_bind eq); [apply eos_eosR; apply Helems|]. intros vs ? <-. apply eos_refl.
+  - eapply (eos_bind eq); [apply eos_eosR; apply (summ_list_length H zh (TList e k)); auto|].
+    intros ll ? <-.
+    eapply (eos_bind eq); [apply eos_eosR; apply Helems|]. intros vs ? <-. apply eos_refl.
+  - eapply (eos_bind eq); [apply eos_eosR; apply Helems|]. intros vs ? <-. apply eos_refl.
+  - (* Union *)
+    destruct (backs_union zh none opts n Hwf Hb) as (c & s & -> & Hopt).
+    destruct (summ_from_pair H _ _ _ Hs) as [->|(c' & b' & -> & Hc & Hsel)]; [now left|].
+    apply summ_leaf_inv in Hsel. subst b'.
+    change (union_selector (TUnion none opts) (Pair c' (Leaf s)))
+      with (union_selector (TUnion none opts) (Pair c (Leaf s))).
+    destruct (union_selector (TUnion none opts) (Pair c (Leaf s))) as [sel| |] eqn:Hsl; cbn [bind];
+      [|apply eos_refl|apply eos_refl].
+    unfold union_value.
+    change (union_selector (TUnion none opts) (Pair c' (Leaf s)))
+      with (union_selector (TUnion none opts) (Pair c (Leaf s))).
+    rewrite Hsl. cbn [bind].
+    destruct (union_opt none opts sel) as [o|] eqn:Ho; [|apply eos_refl].
+    assert (Hsel : sel = N_of_byte (hd b0 s)).
+    { cbn [union_selector] in Hsl. destruct (negb _); [discriminate|]. cbv zeta in Hsl.
+      destruct (_ <=? _); [discriminate|]. now injection Hsl as <-. }
+    assert (Hbo : backs o c /\ wf_ty o = true).
+    { cbn [wf_ty] in Hwf. apply andb_true_iff in Hwf. destruct Hwf as [_ Hwfo].
+      rewrite forallb_forall in Hwfo. unfold union_opt in Ho. rewrite Hsel in Ho.
+      destruct none; cbn [andb] in Hopt.
+      - destruct (N_of_byte (hd b0 s) =? 0) eqn:E0; [discriminate|].
+        split; [now apply (Hopt eq_refl)|]. apply Hwfo. eapply nth_error_In; eauto.
+      - split; [now apply (Hopt eq_refl)|]. apply Hwfo. eapply nth_error_In; eauto. }
+    destruct Hbo as [Hbo Hwo]. cbn [bind].
+    eapply (eos_bind eq); [apply eos_eosR; now apply IH|]. intros v ? <-. apply eos_refl.
+Qed.
+
+End ReadVal.
+
+Example ex12c_read_val :
+  read_val 3 ex12c_ty ex12c_full = OK ex12c_val /\ read_val 3 ex12c_ty ex12c_part = Err /\
+  read_val 2 ex12_ty ex12_full = OK ex12_val /\ read_val 2 ex12_ty ex12_part = Err.
+Proof. repeat split; vm_compute; reflexivity. Qed.
+
+(* ------------------------------------------------------------------------------------- *)
+(* 9. the machine TM on arbitrary states: sub-views, hook propagation, histories         *)
+(* ------------------------------------------------------------------------------------- *)
+
+(* every handle's backing is well typed; hooks point to older handles *)
+Definition typed_state (zh : nat -> chunk) (st : tm_state) : Prop :=
+  forall j x, nth_error (m_handles node unit st) j = Some x -> backs zh (h_ty node x) (h_back node x).
+Definition hooks_dec (st : tm_state) : Prop :=
+  forall k x p i, nth_error (m_handles node unit st) k = Some x -> h_hook node x = Some (p, i) ->
+                  (p < k)%nat.
+
+(* histories: results equal until the partial machine reports an error *)
+Inductive hist_sim : list (res mout) -> list (res mout) -> Prop :=
+| hs_nil : hist_sim [] []
+| hs_err r l l' : hist_sim (r :: l) (Err :: l')
+| hs_same r l l' : hist_sim l l' -> hist_sim (r :: l) (r :: l').
+
+Section GenStep.
+Variable H : chunk -> chunk -> chunk.
+Variable zh : nat -> chunk.
+Hypothesis Hzh : forall d, zh d = zero_hash H d.
+Notation summ := (summ H).
+Notation backs := (backs zh).
+Notation zcf := (zero_collision_free H zh).
+Notation ssim := (ssim H).
+Notation hsim := (hsim H).
+Notation tm_mutate := (mutate node unit p_get (p_set zh) p_leaf p_pair p_chunk (p_zero zh) p_true zh).
+Notation tm_backing := (set_backing node unit p_get (p_set zh) p_chunk).
+Notation handles := (m_handles node unit).
+
+(* outcome of the partial machine against the outcome of the full machine *)
+Definition osim {A} (p p' : tm_state * res A) : Prop :=
+  snd p' = Err \/ (snd p' = snd p /\ ssim (fst p) (fst p')).
+
+Lemma put_back_nth_eq st h b s x : nth_error (handles st) h = Some x ->
+  nth_error (handles (put_back node unit st h b s)) h = Some (mkH node (h_ty node x) b (h_hook node x)).
+Proof.
+  intros Ex. unfold put_back. rewrite Ex. cbn [m_handles].
+  apply nth_error_list_set_eq. eapply nth_error_lt; eauto.
+Qed.
+
+Lemma put_back_nth_none st h b s : nth_error (handles st) h = None ->
+  handles (put_back node unit st h b s) = handles st.
+Proof. intros Ex. unfold put_back. rewrite Ex. reflexivity. Qed.
+
+Lemma put_back_nth_neq st h b s j : j <> h ->
+  nth_error (handles (put_back node unit st h b s)) j = nth_error (handles st) j.
+Proof.
+  intros Hne. unfold put_back. destruct (nth_error (handles st) h) as [x|]; cbn [m_handles]; [|reflexivity].
+  apply nth_error_list_set_neq. congruence.
+Qed.
+
+Lemma ssim_put_back st st' h b b' s s' : ssim st st' -> summ b b' ->
+  ssim (put_back node unit st h b s) (put_back node unit st' h b' s').
+Proof.
+  intros Hst Hb. unfold PartialProofs.ssim in *. unfold put_back.
+  destruct (nth_error (handles st) h) as [x|] eqn:Ex.
+  - destruct (Forall2_nth_l _ _ _ _ _ Hst Ex) as (x' & Ex' & Et & Ek & _). rewrite Ex'.
+    cbn [m_handles]. apply Forall2_list_set; [exact Hst|].
+    unfold PartialProofs.hsim. cbn [h_ty h_hook h_back]. auto.
+  - rewrite (proj1 (Forall2_nth_none _ _ _ h Hst) Ex). exact Hst.
+Qed.
+
+Lemma hooks_dec_put_back st h b s : hooks_dec st -> hooks_dec (put_back node unit st h b s).
+Proof.
+  intros Hd k x p i Ex Ehk. destruct (Nat.eq_dec k h) as [->|Hne].
+  - destruct (nth_error (handles st) h) as [x0|] eqn:E0.
+    + rewrite (put_back_nth_eq st h b s x0 E0) in Ex. injection Ex as <-. cbn [h_hook] in Ehk.
+      eapply Hd; eauto.
+    + rewrite (put_back_nth_none st h b s E0) in Ex. congruence.
+  - rewrite put_back_nth_neq in Ex by exact Hne. eapply Hd; eauto.
+Qed.
+
+(* BackedView.SetBacking with its hook chain *)
+Lemma set_backing_sim : forall fuel st st' h b b' s s',
+  ssim st st' -> summ b b' ->
+  (forall j x, (j < h)%nat -> nth_error (handles st) j = Some x -> backs (h_ty node x) (h_back node x)) ->
+  hooks_dec st ->
+  osim (tm_backing fuel st h b s) (tm_backing fuel st' h b' s').
+Proof.
+  induction fuel as [|f IH]; intros st st' h b b' s s' Hst Hb Hty Hd; cbn [set_backing].
+  - right. cbn [fst snd]. split; [reflexivity|now apply ssim_put_back].
+  - pose proof (ssim_put_back st st' h b b' s s' Hst Hb) as Hst1.
+    pose proof (hooks_dec_put_back st h b s Hd) as Hd1.
+    set (st1 := put_back node unit st h b s) in *. set (st1' := put_back node unit st' h b' s') in *.
+    destruct (nth_error (handles st1) h) as [x|] eqn:Ex.
+    2:{ rewrite (proj1 (Forall2_nth_none _ _ _ h Hst1) Ex). now left. }
+    destruct (Forall2_nth_l _ _ _ _ _ Hst1 Ex) as (x' & Ex' & Et & Ek & Hxb). rewrite Ex', <- Ek.
+    destruct (h_hook node x) as [[p i]|] eqn:Ehook; [|right; cbn [fst snd]; auto].
+    pose proof (Hd1 h x p i Ex Ehook) as Hp.
+    destruct (nth_error (handles st1) p) as [px|] eqn:Epx.
+    2:{ rewrite (proj1 (Forall2_nth_none _ _ _ p Hst1) Epx). now left. }
+    destruct (Forall2_nth_l _ _ _ _ _ Hst1 Epx) as (px' & Epx' & Etp & _ & Hpb). rewrite Epx', <- Etp.
+    assert (Hbp : backs (h_ty node px) (h_back node px)).
+    { apply (Hty p px Hp). unfold st1 in Epx. rewrite put_back_nth_neq in Epx by lia. exact Epx. }
+    pose proof (tm_slot_set_sim H zh Hzh (h_ty node px) (m_store node unit st1) (m_store node unit st1')
+                  (h_back node px) (h_back node px') i b b' Hbp Hpb Hb) as HS.
+    destruct HS as [E|[[E1 E2]|((pb & s2) & (pb' & s2') & E1 & E2 & Hr)]].
+    + rewrite E. now left.
+    + rewrite E1, E2. right. cbn [fst snd]. auto.
+    + rewrite E1, E2. unfold msim in Hr. cbn [fst] in Hr. apply IH; auto.
+      intros j y Hj Ey. apply (Hty j y); [lia|].
+      unfold st1 in Ey. rewrite put_back_nth_neq in Ey by lia. exact Ey.
+Qed.
+
+Lemma ssim_length st st' : ssim st st' -> length (handles st) = length (handles st').
+Proof. intros Hst. apply (Forall2_length' _ _ _ Hst). Qed.
+
+Lemma ssim_push st st' x x' : ssim st st' -> hsim x x' ->
+  ssim (fst (push_handle node unit st x)) (fst (push_handle node unit st' x')) /\
+  snd (push_handle node unit st x) = snd (push_handle node unit st' x').
+Proof.
+  intros Hst Hx. unfold push_handle. cbn [fst snd]. split.
+  - unfold PartialProofs.ssim. cbn [m_handles]. apply Forall2_app; [exact Hst|]. constructor; [exact Hx|constructor].
+  - now apply ssim_length.
+Qed.
+
+(* a mutating operation, any state *)
+Theorem summ_tm_step_mut st st' o : mutating o = true ->
+  ssim st st' -> typed_state zh st -> hooks_dec st ->
+  (op_expands o = true -> forall x, get_handle node unit st (op_target o) = OK x -> zcf (h_back node x)) ->
+  osim (tm_step zh st o) (tm_step zh st' o).
+Proof.
+  intros Hm Hst Hty Hd Hz. rewrite !(tm_step_mutating zh _ o Hm).
+  destruct (get_handle_sim H st st' (op_target o) Hst) as [E|[[E _]|(x & x' & E1 & E2 & Hx)]].
+  - rewrite E. now left.
+  - exfalso. unfold get_handle in E. destruct (nth_error _ _); discriminate.
+  - rewrite E1, E2.
+    assert (Hbx : backs (h_ty node x) (h_back node x)).
+    { unfold get_handle in E1. destruct (nth_error (handles st) (op_target o)) as [y|] eqn:Ey;
+        [|discriminate]. injection E1 as <-. eapply Hty; eauto. }
+    destruct (summ_mutate H zh Hzh st st' x x' o Hst Hx Hbx (fun He => Hz He x E1))
+      as [E|[[E3 E4]|((b & s) & (b' & s') & E3 & E4 & Hr)]].
+    + rewrite E. now left.
+    + rewrite E3, E4. right. cbn [fst snd]. auto.
+    + rewrite E3, E4. unfold msim in Hr. cbn [fst] in Hr.
+      unfold hook_fuel. rewrite <- (ssim_length st st' Hst).
+      pose proof (set_backing_sim (S (length (handles st))) st st' (op_target o) b b' s s' Hst Hr
+                    (fun j y _ Ey => Hty j y Ey) Hd) as HB.
+      destruct (tm_backing (S (length (handles st))) st (op_target o) b s) as [st1 r].
+      destruct (tm_backing (S (length (handles st))) st' (op_target o) b' s') as [st1' r'].
+      destruct HB as [E|[E Hs1]]; cbn [fst snd] in *.
+      * rewrite E. now left.
+      * rewrite E. right. cbn [fst snd]. auto.
+Qed.
+
+End GenStep.
+
+Section GenStep2.
+Variable H : chunk -> chunk -> chunk.
+Variable zh : nat -> chunk.
+Hypothesis Hzh : forall d, zh d = zero_hash H d.
+Notation summ := (summ H).
+Notation backs := (backs zh).
+Notation zcf := (zero_collision_free H zh).
+Notation ssim := (ssim H).
+Notation hsim := (hsim H).
+Notation handles := (m_handles node unit).
+
+Lemma backs_union_shape none opts n : backs (TUnion none opts) n -> exists c s, n = Pair c (Leaf s).
+Proof.
+  intros (v & Hty & Hr).
+  destruct v as [x|x|x|x|x|x|sel ov]; try (cbn [has_type] in Hty; discriminate Hty).
+  rewrite repr_union in Hr. destruct Hr as (c & -> & _). eauto.
+Qed.
+
+Lemma elem_ty_sim t a a' i : backs t a -> summ a a' ->
+  tm_elem_ty t a' i = None \/ tm_elem_ty t a' i = tm_elem_ty t a i.
+Proof.
+  intros Hb Hs. destruct t as [w| |k| |k|k|e k|e k|fs|none opts]; try (right; reflexivity).
+  cbn [tm_elem_ty]. destruct (is_basic_elem e); [now right|].
+  destruct (tm_check_index_sim H zh (TList e k) tt tt a a' i eq_refl Hb Hs) as [->| ->];
+    [now left|now right].
+Qed.
+
+Lemma uvalue_sim none opts a a' : backs (TUnion none opts) a -> summ a a' ->
+  eosR (fun r r' : option ty * node => fst r = fst r' /\ summ (snd r) (snd r'))
+       (tm_uvalue none opts a') (tm_uvalue none opts a).
+Proof.
+  intros Hb Hs. destruct (backs_union_shape none opts a Hb) as (c & s & ->).
+  unfold tm_uvalue, p_get, getter. rewrite g_path_three, g_path_2.
+  destruct (summ_from_pair H _ _ _ Hs) as [->|(c' & b' & -> & Hc & Hsel)]; [apply eosR_err|].
+  apply summ_leaf_inv in Hsel. subst b'. cbn [get_path bind p_chunk leaf_chunk].
+  destruct (negb _); [apply eosR_err|]. cbv zeta.
+  destruct (_ <=? _); [apply eosR_err|]. rewrite !get_path_nil. cbn [bind].
+  apply eosR_ok. cbn [fst snd]. auto.
+Qed.
+
+(* a reading operation (typed Get of a sub-view, union value, copy), any state *)
+Theorem summ_tm_step_read st st' o : mutating o = false ->
+  ssim st st' -> typed_state zh st ->
+  osim H (tm_step zh st o) (tm_step zh st' o).
+Proof.
+  intros Hm Hst Hty. destruct o as [h i|h|h|h i v|h v|h|h sel v]; try discriminate Hm.
+  - (* typed Get *)
+    rewrite !tm_step_get.
+    destruct (get_handle_sim H st st' h Hst) as [E|[[E _]|(x & x' & E1 & E2 & Hx)]].
+    + rewrite E. now left.
+    + exfalso. unfold get_handle in E. destruct (nth_error _ _); discriminate.
+    + rewrite E1, E2. destruct Hx as (Et & _ & Hs). rewrite <- Et.
+      assert (Hbx : backs (h_ty node x) (h_back node x)).
+      { unfold get_handle in E1. destruct (nth_error (handles st) h) as [y|] eqn:Ey; [|discriminate].
+        injection E1 as <-. eapply Hty; eauto. }
+      destruct (elem_ty_sim (h_ty node x) (h_back node x) (h_back node x') i Hbx Hs) as [->| ->];
+        [now left|].
+      destruct (tm_elem_ty (h_ty node x) (h_back node x) i) as [e|]; [|now left].
+      change (m_get_node node unit p_get (h_ty node x) tt (h_back node x') i)
+        with (get_node (h_ty node x) (h_back node x') i).
+      change (m_get_node node unit p_get (h_ty node x) tt (h_back node x) i)
+        with (get_node (h_ty node x) (h_back node x) i).
+      destruct (summ_get_node H (h_ty node x) _ _ i Hs) as [->|[[-> ->]|(c & c' & -> & -> & Hc)]].
+      * now left.
+      * right. cbn [fst snd]. auto.
+      * assert (Hh : hsim (mkH node e c (Some (h, i))) (mkH node e c' (Some (h, i)))).
+        { unfold PartialProofs.hsim. cbn [h_ty h_hook h_back]. auto. }
+        destruct (ssim_push H st st' _ _ Hst Hh) as [Hp Hk].
+        unfold push_handle in *. cbn [fst snd] in *. right. cbn [fst snd]. rewrite Hk. auto.
+  - (* union value *)
+    rewrite !tm_step_uvalue.
+    destruct (get_handle_sim H st st' h Hst) as [E|[[E _]|(x & x' & E1 & E2 & Hx)]].
+    + rewrite E. now left.
+    + exfalso. unfold get_handle in E. destruct (nth_error _ _); discriminate.
+    + rewrite E1, E2. destruct Hx as (Et & _ & Hs). rewrite <- Et.
+      assert (Hbx : backs (h_ty node x) (h_back node x)).
+      { unfold get_handle in E1. destruct (nth_error (handles st) h) as [y|] eqn:Ey; [|discriminate].
+        injection E1 as <-. eapply Hty; eauto. }
+      destruct (h_ty node x) as [w| |k| |k|k|e k|e k|fs|none opts]; try (now left).
+      destruct (uvalue_sim none opts _ _ Hbx Hs)
+        as [->|[[-> ->]|((o & c) & (o' & c') & -> & -> & Eo & Hc)]].
+      * now left.
+      * right. cbn [fst snd]. auto.
+      * cbn [fst snd] in Eo, Hc. subst o'. destruct o as [o|].
+        -- assert (Hh : hsim (mkH node o c None) (mkH node o c' None)).
+           { unfold PartialProofs.hsim. cbn [h_ty h_hook h_back]. auto. }
+           destruct (ssim_push H st st' _ _ Hst Hh) as [Hp Hk].
+           unfold push_handle in *. cbn [fst snd] in *. right. cbn [fst snd]. rewrite Hk. auto.
+        -- right. cbn [fst snd]. auto.
+  - (* copy *)
+    unfold tm_step, step.
+    destruct (get_handle_sim H st st' h Hst) as [E|[[E _]|(x & x' & E1 & E2 & Hx)]].
+    + rewrite E. now left.
+    + exfalso. unfold get_handle in E. destruct (nth_error _ _); discriminate.
+    + rewrite E1, E2. destruct Hx as (Et & _ & Hs). rewrite <- Et.
+      assert (Hh : hsim (mkH node (h_ty node x) (h_back node x) None)
+                        (mkH node (h_ty node x) (h_back node x') None)).
+      { unfold PartialProofs.hsim. cbn [h_ty h_hook h_back]. auto. }
+      destruct (ssim_push H st st' _ _ Hst Hh) as [Hp Hk].
+      unfold push_handle in *. cbn [fst snd] in *. right. cbn [fst snd]. rewrite Hk. auto.
+Qed.
+
+(* every operation *)
+Theorem summ_tm_step_any st st' o :
+  ssim st st' -> typed_state zh st -> hooks_dec st ->
+  (op_expands o = true -> forall x, get_handle node unit st (op_target o) = OK x -> zcf (h_back node x)) ->
+  osim H (tm_step zh st o) (tm_step zh st' o).
+Proof.
+  intros Hst Hty Hd Hz. destruct (mutating o) eqn:Hm.
+  - now apply summ_tm_step_mut.
+  - now apply summ_tm_step_read.
+Qed.
+
+(* states related to a plain-value machine state (C04) are typed, with hooks to older handles *)
+Lemma R_typed tm vm : R zh tm vm -> typed_state zh tm /\ hooks_dec tm.
+Proof.
+  intros [HF Hh]. split.
+  - intros j x Ex. destruct (Forall2_nth_l _ _ _ _ _ HF Ex) as (y & Ey & Et & _ & _ & Hty & Hr).
+    rewrite Et. exists (vh_val y). auto.
+  - intros k x p i Ex Ehk. destruct (Forall2_nth_l _ _ _ _ _ HF Ex) as (y & Ey & _ & Ek & _).
+    rewrite Ek in Ehk. destruct (Hh k y p i Ey Ehk) as [Hp _]. exact Hp.
+Qed.
+
+(* whole histories of operations on a view of the full tree and on a view of the partial tree:
+   the same results until the partial one reports an error; C04 keeps the full machine well
+   typed along the way *)
+Theorem summ_history : (forall n, zcf n) ->
+  forall os tm vm tm', R zh tm vm -> srcs_ok vm os -> ssim tm tm' ->
+  hist_sim (tm_trace zh tm os) (tm_trace zh tm' os) /\
+  (~ In Err (tm_trace zh tm' os) -> ssim (tm_run zh tm os) (tm_run zh tm' os)).
+Proof.
+  intros Hzcf. induction os as [|o os IH]; intros tm vm tm' HR Hsrc Hst.
+  - cbn [tm_trace]. split; [constructor|]. intros _. exact Hst.
+  - destruct Hsrc as [Ho Hsrc]. destruct (R_typed tm vm HR) as [Hty Hd].
+    destruct (step_ok H zh Hzh tm vm o HR Ho) as [HR' _].
+    pose proof (summ_tm_step_any tm tm' o Hst Hty Hd (fun _ x _ => Hzcf _)) as HS.
+    cbn [tm_trace]. unfold tm_run. cbn [fold_left]. fold (tm_run zh (fst (tm_step zh tm o)) os).
+    fold (tm_run zh (fst (tm_step zh tm' o)) os).
+    destruct HS as [E|[E Hs1]].
+    + rewrite E. split; [constructor|]. intros Hn. exfalso. apply Hn. now left.
+    + rewrite E. destruct (IH _ _ _ HR' Hsrc Hs1) as [IH1 IH2]. split; [now constructor|].
+      intros Hn. apply IH2. intros Hin. apply Hn. now right.
+Qed.
+
+End GenStep2.
+
+(* ---- an injective pair hash: every tree is collision free, the history theorem applies ---- *)
+Definition ienc (a : chunk) : chunk := flat_map (fun c => [Byte.x01; c]) a ++ [Byte.x00].
+Definition iH (a b : chunk) : chunk := Byte.x02 :: ienc a ++ b.
+Definition izh : nat -> chunk := zero_hash iH.
+
+Lemma ienc_inj : forall a a' b b', ienc a ++ b = ienc a' ++ b' -> a = a' /\ b = b'.
+Proof.
+  unfold ienc. induction a as [|c a IH]; intros [|c' a'] b b' E; cbn in E.
+  - injection E as ->. auto.
+  - discriminate.
+  - discriminate.
+  - injection E as -> E. destruct (IH _ _ _ E) as [-> ->]. auto.
+Qed.
+
+Lemma iH_zpf : zero_preimage_free iH.
+Proof.
+  intros a b [|k] E.
+  - discriminate E.
+  - exists k. split; [reflexivity|]. cbn [zero_hash] in E. unfold iH in E. injection E as E.
+    apply ienc_inj in E. exact E.
+Qed.
+
+Lemma iH_zcf n : zero_collision_free iH izh n.
+Proof. apply (zpf_zcf iH izh (fun d => eq_refl) n iH_zpf). Qed.
+
+Definition ex12h_full : node :=
+  match from_val izh ex12c_ty ex12c_val with OK n => n | _ => Leaf [] end.
+(* the pair of list elements, deep inside the container, replaced by its summary root *)
+Definition ex12h_part : node :=
+  match summarize izh iH ex12h_full 20 with OK n => n | _ => Leaf [] end.
+Definition ex12h_ops : list op :=
+  [ OGet 0 1;                                  (* handle 1: the list field, hooked to the root *)
+    OAppend 1 (SLit (TUint 32) (VUint 3));     (* expands a zero summary; propagates to handle 0 *)
+    OSet 0 0 (SLit (TUint 8) (VUint 5));
+    OSet 1 0 (SLit (TUint 32) (VUint 8)) ].    (* element 0 is summarised away: error *)
+
+Example ex12h_hyps :
+  from_val izh ex12c_ty ex12c_val = OK ex12h_full /\
+  summarize izh iH ex12h_full 20 = OK ex12h_part /\
+  R izh (tm_init ex12c_ty ex12h_full) (v_init ex12c_ty ex12c_val) /\
+  srcs_ok (v_init ex12c_ty ex12c_val) ex12h_ops /\
+  ssim iH (tm_init ex12c_ty ex12h_full) (tm_init ex12c_ty ex12h_part).
+Proof.
+  assert (E1 : from_val izh ex12c_ty ex12c_val = OK ex12h_full) by (vm_compute; reflexivity).
+  assert (E2 : summarize izh iH ex12h_full 20 = OK ex12h_part) by (vm_compute; reflexivity).
+  split; [exact E1|]. split; [exact E2|]. split; [|split].
+  - assert (Hok : ty_ok ex12c_ty) by (repeat split; vm_compute; reflexivity).
+    assert (Hty : has_type ex12c_val ex12c_ty = true) by (vm_compute; reflexivity).
+    destruct Hok as (A & B & C).
+    destruct (from_val_repr iH izh (fun d => eq_refl) ex12c_ty ex12c_val A B C Hty) as (n & En & Rn).
+    rewrite E1 in En. injection En as <-.
+    apply R_init; [repeat split; assumption|exact Hty|exact Rn].
+  - vm_compute. repeat split; intros; subst; try discriminate; try reflexivity;
+      repeat match goal with
+             | H : Some _ = Some _ |- _ => injection H as H; subst
+             end; try reflexivity; try discriminate.
+  - unfold ssim, tm_init. cbn [m_handles]. constructor; [|constructor].
+    unfold hsim. cbn [h_ty h_hook h_back]. repeat split.
+    apply (summarize_summ iH izh ex12h_full 20). exact E2.
+Qed.
+
+Example ex12h_traces :
+  tm_trace izh (tm_init ex12c_ty ex12h_full) ex12h_ops = [OK (MHandle 1); OK MUnit; OK MUnit; OK MUnit] /\
+  tm_trace izh (tm_init ex12c_ty ex12h_part) ex12h_ops = [OK (MHandle 1); OK MUnit; OK MUnit; Err] /\
+  map (fun x => root_of iH (h_back node x))
+      (m_handles node unit (tm_run izh (tm_init ex12c_ty ex12h_part) (firstn 3 ex12h_ops))) =
+  map (fun x => root_of iH (h_back node x))
+      (m_handles node unit (tm_run izh (tm_init ex12c_ty ex12h_full) (firstn 3 ex12h_ops))).
+Proof. repeat split; vm_compute; reflexivity. Qed.
+
+(* with C04 the full machine never panics on well-typed sources; hence neither does the partial one *)
+Corollary summ_tm_step_no_panic H zh (Hzh : forall d, zh d = zero_hash H d) tm vm tm' o :
+  R zh tm vm -> src_ok vm o -> ssim H tm tm' ->
+  (op_expands o = true -> forall x, get_handle node unit tm (op_target o) = OK x ->
+                          zero_collision_free H zh (h_back node x)) ->
+  snd (tm_step zh tm' o) <> Panic.
+Proof.
+  intros HR Hsrc Hst Hz. destruct (R_typed zh tm vm HR) as [Hty Hd].
+  destruct (tm_step zh tm o) as [tm1 r] eqn:Et. destruct (v_step vm o) as [vm1 r1] eqn:Ev.
+  destruct (step_ok_eq H zh Hzh tm vm o tm1 r vm1 r1 HR Hsrc Et Ev) as (_ & _ & Hnp).
+  destruct (summ_tm_step_any H zh Hzh tm tm' o Hst Hty Hd Hz) as [E|[E _]].
+  - rewrite E. discriminate.
+  - rewrite E, Et. exact Hnp.
+Qed.
